@@ -213,7 +213,7 @@ Ltac step_cases H pr Hpr Hpc :=
   try discriminate H; inversion H; clear H.
 
 Ltac simp_st :=
-  cbn [st_store st_repo st_rtrunc st_links st_clk st_log st_procs upd_proc with_store with_repo with_links with_log
+  cbn [st_dir st_store st_repo st_rtrunc st_links st_clk st_log st_procs upd_proc with_store with_repo with_links with_log with_dir
        p_pc p_ops p_res p_tmp p_attic p_meta p_dirty p_size p_inst p_pmeta p_todo p_cands p_queue p_done p_scan
        p_quota p_auto set_pc set_tmp set_attic set_repo_mem set_inst set_pmeta set_gc finish] in *.
 
@@ -270,7 +270,10 @@ Proof.
     try (match goal with E : move_next _ = inl _ |- _ => apply move_next_inl in E; destruct E as [E|E]; subst; cbn; auto end).
 Qed.
 
-Lemma excl_repo_init : forall procs, (forall pr, In pr procs -> repo_mode (p_pc pr) = None) -> excl_repo (init procs).
+Section WithDir.
+Variable dir : bool.   (* does the store directory exist at the beginning *)
+
+Lemma excl_repo_init : forall procs, (forall pr, In pr procs -> repo_mode (p_pc pr) = None) -> excl_repo (init dir procs).
 Proof.
   intros procs H i j pi pj _ _ Hj _. apply H. eapply nth_error_In; exact Hj.
 Qed.
@@ -623,7 +626,8 @@ Definition new_scan (s : state) (pr : proc) (c : cand) : Prop :=
   p_pc pr = GScanLock /\
   exists sz rest d m, p_todo pr = (c_id c, sz) :: rest /\ pkg_free_s s (c_id c) = true /\
      lookup (c_id c) (st_store s) = Some d /\ disk_meta d = Some m /\
-     c_unused c = (check_unused (st_links s) (m_users m) (c_id c) && negb (is_newpkg pr (c_id c))).
+     c_unused c = (check_unused (st_links s) (m_users m) (c_id c) && negb (is_newpkg pr (c_id c))) /\
+     (c_unused c || g_used pr) = true.
 
 Lemma gphase_start : forall ops, gphase (start_pc ops) = false.
 Proof. intros ops; destruct (start_pc_cases ops) as [E|[E|[E|[E|E]]]]; rewrite E; reflexivity. Qed.
@@ -653,18 +657,1326 @@ Proof.
     try (left; simp_st; auto; fail);
     right; rewrite Hpc; (split; [reflexivity|]); (split; [reflexivity|]); simp_st; intros c0 Hc;
     try (left; exact Hc).
-  - (* GScan, package directory is gone, last one: sort *)
-    left. destruct Hc as [Hc|Hc]; auto. apply In_sort_cands in Hc; auto.
-  - left. destruct Hc as [Hc|Hc]; auto. apply In_sort_cands in Hc; auto.
-  - (* GScanLock *)
-    destruct Hc as [Hc|Hc]; [|auto].
-    match type of Hc with In _ (if ?b then _ else _) => destruct b end; [|auto].
-    apply in_app_iff in Hc. destruct Hc as [Hc|[Hc|[]]]; [auto|]. subst c0.
-    right. split; [assumption|]. cbn [c_id c_unused]. eauto 10.
-  - (* GScanUnlock, last one: sort *)
-    left. destruct Hc as [Hc|Hc]; auto. apply In_sort_cands in Hc; auto.
-  - left. destruct Hc as [Hc|Hc]; auto. apply In_sort_cands in Hc; auto.
-  - (* GMove dry *)
-    left. destruct Hc as [Hc|Hc]; auto. right. rewrite Heql. right; auto.
-  - left. destruct Hc as [Hc|Hc]; auto. right. rewrite Heql. right; auto.
+  all: destruct Hc as [Hc|Hc];
+       try (apply (proj1 (In_sort_cands _ _)) in Hc);
+       try (match type of Hc with In _ (if ?b then _ else _) => destruct b end);
+       try (left; left; exact Hc); try (left; right; exact Hc);
+       try (left; right; rewrite Heql; right; exact Hc);
+       try (apply in_app_iff in Hc; destruct Hc as [Hc|[Hc|[]]];
+            [left; left; exact Hc|subst c0; right; split; [assumption|]; cbn [c_id c_unused];
+             do 4 eexists; repeat split; eauto]).
 Qed.
+
+(* ------------------------------------------------------------------ runs *)
+Lemma run_app : forall s a b, run s (a ++ b) = run (run s a) b.
+Proof. intros; unfold run; apply fold_left_app. Qed.
+
+Lemma run_snoc : forall s a x, run s (a ++ [x]) = act (run s a) x.
+Proof. intros; rewrite run_app; reflexivity. Qed.
+
+(* ------------------------------------------------------------------ never collected while used (partial) *)
+Definition scan_witness (procs : list proc) (sched : list action) (g : nat) (q : N) : Prop :=
+  exists sched0 rest, sched = sched0 ++ Step g :: rest /\
+    scans (run (init dir procs) sched0) g q /\
+    (forall w, recorded (run (init dir procs) sched0) q w -> lookup w (st_links (run (init dir procs) sched0)) <> Some q) /\
+    ops_left (run (init dir procs) sched0) g = ops_left (run (init dir procs) sched) g.
+
+Definition cand_hist (procs : list proc) (sched : list action) : Prop :=
+  forall g pr c, proc_at (run (init dir procs) sched) g pr -> gphase (p_pc pr) = true ->
+    In c (p_cands pr) \/ In c (p_queue pr) ->
+    (g_used pr = false -> c_unused c = true) /\ (c_unused c = true -> scan_witness procs sched g (c_id c)).
+
+Lemma scan_witness_extend : forall procs sched a g q,
+  ops_left (act (run (init dir procs) sched) a) g = ops_left (run (init dir procs) sched) g ->
+  scan_witness procs sched g q -> scan_witness procs (sched ++ [a]) g q.
+Proof.
+  intros procs sched a g q Hops (sched0 & rest & E & Hs & Hl & Ho).
+  exists sched0, (rest ++ [a]). split; [rewrite E, <- app_assoc; reflexivity|].
+  split; auto. split; auto. rewrite run_snoc. congruence.
+Qed.
+
+Lemma ops_left_same : forall s s' g, nth_error (st_procs s') g = nth_error (st_procs s) g -> ops_left s' g = ops_left s g.
+Proof. unfold ops_left; intros s s' g E; rewrite E; reflexivity. Qed.
+
+Lemma g_used_ops : forall pr pr', p_ops pr' = p_ops pr -> g_used pr' = g_used pr.
+Proof. unfold g_used, cur; intros pr pr' E; rewrite E; reflexivity. Qed.
+
+Lemma check_unused_links : forall links users q w, check_unused links users q = true -> In w users -> lookup w links <> Some q.
+Proof.
+  unfold check_unused; intros links users q w H Hin E.
+  rewrite forallb_forall in H. specialize (H w Hin). unfold links_to in H. rewrite E, N.eqb_refl in H. discriminate.
+Qed.
+
+Lemma cand_hist_step : forall procs sched a, cand_hist procs sched -> cand_hist procs (sched ++ [a]).
+Proof.
+  intros procs sched a IH g pr' c Hp' Hg Hc. rewrite run_snoc in Hp'.
+  set (s := run (init dir procs) sched) in *.
+  destruct a as [k|].
+  2:{ (* Tick *)
+    destruct (IH g pr' c Hp' Hg Hc) as [I1 I2]. split; auto. intros Hu.
+    apply scan_witness_extend; auto. }
+  cbn [act] in Hp'. destruct (step s k) as [s'|] eqn:Hst.
+  2:{ destruct (IH g pr' c Hp' Hg Hc) as [I1 I2]. split; auto. intros Hu.
+      apply scan_witness_extend; auto. cbn [act]. fold s. rewrite Hst. reflexivity. }
+  destruct (Nat.eq_dec g k) as [->|Hne].
+  2:{ pose proof Hp' as Hp. apply (step_proc_at_other _ _ _ g pr' Hst) in Hp; auto.
+      destruct (IH g pr' c Hp Hg Hc) as [I1 I2]. split; auto. intros Hu.
+      apply scan_witness_extend; auto. cbn [act]. fold s. rewrite Hst.
+      apply ops_left_same. unfold proc_at in *. congruence. }
+  destruct (step_proc_at_self _ _ _ Hst) as (pr & pr2 & Hp & Hp2).
+  assert (pr2 = pr') by (unfold proc_at in *; congruence); subst pr2.
+  destruct (step_cands _ _ _ _ _ Hst Hp Hp' Hg) as [(_ & E1 & E2)|(Hg0 & Hops & Hfrom)].
+  { rewrite E1, E2 in Hc. destruct Hc as [[]|[]]. }
+  destruct (Hfrom c Hc) as [Hold|(Hpc & sz & rest & d & m & Htodo & Hfree & Hlk & Hdm & Hun & Hor)].
+  - destruct (IH k pr c Hp Hg0 Hold) as [I1 I2]. split.
+    + rewrite (g_used_ops _ _ Hops). auto.
+    + intros Hu. apply scan_witness_extend; auto. cbn [act]. fold s. rewrite Hst.
+      unfold ops_left. unfold proc_at in *. rewrite Hp', Hp, Hops. reflexivity.
+  - split.
+    + rewrite (g_used_ops _ _ Hops). intros Hu. rewrite Hu, orb_false_r in Hor. auto.
+    + intros Hu. exists sched, []. split; [reflexivity|]. fold s. split; [|split].
+      * exists pr, sz, rest. auto.
+      * intros w (d' & m' & Hd' & Hm' & Hin). rewrite Hlk in Hd'. inversion Hd'; subst d'.
+        unfold disk_meta in Hdm. destruct (d_trunc d); [discriminate|]. rewrite Hdm in Hm'. inversion Hm'; subst m'.
+        rewrite Hu in Hun. symmetry in Hun. apply andb_true_iff in Hun. destruct Hun as [Hun _].
+        eapply check_unused_links; eauto.
+      * rewrite run_snoc. fold s. cbn [act]. rewrite Hst.
+        unfold ops_left. unfold proc_at in *. rewrite Hp', Hp, Hops. reflexivity.
+Qed.
+
+Lemma cand_hist_all : forall procs sched, wf_procs procs -> cand_hist procs sched.
+Proof.
+  intros procs sched WF. induction sched as [|a sched IH] using rev_ind.
+  - intros g pr c Hp Hg Hc. cbn in Hp. destruct (WF pr) as (q & a & ops & ->).
+    + eapply nth_error_In; exact Hp.
+    + cbn in Hg. rewrite gphase_start in Hg. discriminate.
+  - apply cand_hist_step; auto.
+Qed.
+
+Lemma never_collected_while_used_partial_proof : forall procs sched g q,
+  wf_procs procs ->
+  collects (run (init dir procs) sched) g q -> not_forced (run (init dir procs) sched) g ->
+  exists sched0 rest, sched = sched0 ++ Step g :: rest /\
+    scans (run (init dir procs) sched0) g q /\
+    (forall w, recorded (run (init dir procs) sched0) q w -> lookup w (st_links (run (init dir procs) sched0)) <> Some q) /\
+    ops_left (run (init dir procs) sched0) g = ops_left (run (init dir procs) sched) g.
+Proof.
+  intros procs sched g q WF (pr & c & rest & Hp & Hpc & Hq & Hid & Hdry) (pr2 & Hp2 & Hnf).
+  assert (pr2 = pr) by congruence; subst pr2.
+  destruct (cand_hist_all procs sched WF g pr c Hp) as [I1 I2].
+  - rewrite Hpc; reflexivity.
+  - right. rewrite Hq. left; reflexivity.
+  - subst q. apply I2. auto.
+Qed.
+
+(* ------------------------------------------------------------------ invariants hold along every schedule: base block *)
+Record base_inv (s : state) : Prop := {
+  b_er : excl_repo s;
+  b_ep : excl_pkg s;
+  b_ul : use_locals s;
+  b_tmp : tmp_ok s;
+  b_vis : visible_ok s
+}.
+
+Lemma wf_start : forall procs i pr, wf_procs procs -> proc_at (init dir procs) i pr -> exists ops, p_pc pr = start_pc ops.
+Proof.
+  intros procs i pr WF H. destruct (WF pr) as (q & a & ops & ->); [eapply nth_error_In; exact H|].
+  exists ops; reflexivity.
+Qed.
+
+Lemma base_init : forall procs, wf_procs procs -> base_inv (init dir procs).
+Proof.
+  intros procs WF. constructor.
+  - intros i j pi pj _ _ Hj _. destruct (wf_start _ _ _ WF Hj) as (ops & ->). apply repo_mode_start.
+  - intros i j pi pj q _ Hi _ Hl. destruct (wf_start _ _ _ WF Hi) as (ops & E).
+    rewrite pkg_lock_none in Hl; [discriminate|]. rewrite E. apply pc_pkg_lock_start.
+  - intros i pr Hi Hpc. destruct (wf_start _ _ _ WF Hi) as (ops & E). rewrite E in Hpc.
+    destruct (start_pc_cases ops) as [E2|[E2|[E2|[E2|E2]]]]; rewrite E2 in Hpc; destruct Hpc; discriminate.
+  - intros i pr Hi. destruct (wf_start _ _ _ WF Hi) as (ops & E). rewrite E.
+    split; intros Hpc; destruct (start_pc_cases ops) as [E2|[E2|[E2|[E2|E2]]]]; rewrite E2 in Hpc; discriminate.
+  - intros q d H. cbn in H. discriminate.
+Qed.
+
+Lemma base_step : forall s i s', base_inv s -> step s i = Some s' -> base_inv s'.
+Proof.
+  intros s i s' [ER EP UL T V] H. constructor.
+  - eapply excl_repo_step; eauto.
+  - eapply excl_pkg_step; eauto.
+  - eapply use_locals_step; eauto.
+  - eapply tmp_ok_step; eauto.
+  - eapply visible_ok_step; eauto.
+Qed.
+
+Lemma base_act : forall s a, base_inv s -> base_inv (act s a).
+Proof.
+  intros s [i|] B; cbn [act].
+  - destruct (step s i) eqn:E; auto. eapply base_step; eauto.
+  - destruct B as [ER EP UL T V]. constructor; auto.
+Qed.
+
+Lemma base_run : forall s sched, base_inv s -> base_inv (run s sched).
+Proof.
+  intros s sched; revert s. induction sched as [|a r IH]; intros s B; cbn; auto. apply IH. apply base_act; auto.
+Qed.
+
+Lemma visible_is_complete_and_hashed_proof : forall procs sched q d,
+  wf_procs procs -> lookup q (st_store (run (init dir procs) sched)) = Some d ->
+  d_audit d = true /\ exists m, d_meta d = Some m /\ d_tree d = Some (m_hash m).
+Proof.
+  intros procs sched q d WF H. exact (b_vis _ (base_run _ sched (base_init _ WF)) q d H).
+Qed.
+
+(* ------------------------------------------------------------------ accounting: repo.json versus the installed packages *)
+Definition scan_ids (pr : proc) : list N := map c_id (p_cands pr) ++ map fst (p_todo pr).
+
+Definition gc_ids (pr : proc) : Prop :=
+  (p_pc pr <> GMove -> NoDup (scan_ids pr) /\ forall x, In x (scan_ids pr) -> In x (map fst (p_meta pr))) /\
+  (p_pc pr = GMove -> NoDup (map c_id (p_queue pr)) /\ forall c, In c (p_queue pr) -> In (c_id c) (map fst (p_meta pr))).
+
+Definition needs_repo (pc : pcT) : bool := match pc with ILockRepo | GLock => true | _ => false end.
+
+Record acct (s : state) : Prop := {
+  a_rl : forall i pr, proc_at s i pr -> repo_mode (p_pc pr) = Some true ->
+           st_repo s = Some (p_meta pr) /\ st_rtrunc s = p_dirty pr;
+  a_rt : st_rtrunc s = true -> exists i pr, proc_at s i pr /\ repo_mode (p_pc pr) = Some true;
+  a_nd : NoDup (map fst (pkgs s));
+  a_vis : forall q sz, In (q, sz) (pkgs s) -> lsize s q = Some sz;
+  a_pend : forall i pr, proc_at s i pr -> pend (p_pc pr) = true ->
+           lsize s (o_pkg (cur pr)) = Some (o_size (cur pr)) /\ ~ In (o_pkg (cur pr)) (map fst (pkgs s));
+  a_uniq : forall i j pi pj, i <> j -> proc_at s i pi -> proc_at s j pj ->
+           pend (p_pc pi) = true -> pend (p_pc pj) = true -> o_pkg (cur pi) <> o_pkg (cur pj);
+  a_all : forall q, lsize s q <> None ->
+           In q (map fst (pkgs s)) \/ exists i pr, proc_at s i pr /\ pend (p_pc pr) = true /\ o_pkg (cur pr) = q;
+  a_gc : forall i pr, proc_at s i pr -> gphase (p_pc pr) = true -> gc_ids pr;
+  a_repo : forall i pr, proc_at s i pr -> needs_repo (p_pc pr) = true -> st_repo s <> None
+}.
+
+Lemma acct_transfer : forall s s' i pr pr',
+  (forall j prj, j <> i -> (proc_at s' j prj <-> proc_at s j prj)) ->
+  proc_at s i pr -> proc_at s' i pr' ->
+  st_repo s' = st_repo s -> st_rtrunc s' = st_rtrunc s ->
+  (forall q, lsize s' q = lsize s q) ->
+  pend (p_pc pr') = pend (p_pc pr) ->
+  (pend (p_pc pr) = true -> cur pr' = cur pr) ->
+  (repo_mode (p_pc pr') = Some true -> st_repo s = Some (p_meta pr') /\ st_rtrunc s = p_dirty pr') ->
+  (repo_mode (p_pc pr) = Some true -> repo_mode (p_pc pr') = Some true \/ st_rtrunc s = false) ->
+  (gphase (p_pc pr') = true -> gc_ids pr') ->
+  (needs_repo (p_pc pr') = true -> st_repo s <> None) ->
+  acct s -> acct s'.
+Proof.
+  intros s s' i pr pr' Hoth Hp Hp' Hrepo Htr Hls Hpend Hcur Hx Hx2 Hgc Hnr A.
+  assert (Hpk : pkgs s' = pkgs s) by (unfold pkgs; rewrite Hrepo; reflexivity).
+  assert (Hsplit : forall j prj, proc_at s' j prj -> (j = i /\ prj = pr') \/ (j <> i /\ proc_at s j prj)).
+  { intros j prj Hj. destruct (Nat.eq_dec j i) as [->|Hne].
+    - left; split; auto. unfold proc_at in *; congruence.
+    - right; split; auto. apply Hoth; auto. }
+  constructor.
+  - intros j prj Hj Hm. rewrite Hrepo, Htr. destruct (Hsplit j prj Hj) as [[-> ->]|[Hne Hj0]].
+    + apply Hx; auto.
+    + apply (a_rl _ A j prj Hj0 Hm).
+  - rewrite Htr. intros Ht. destruct (a_rt _ A Ht) as (j & prj & Hj & Hm).
+    destruct (Nat.eq_dec j i) as [->|Hne].
+    + assert (prj = pr) by (unfold proc_at in *; congruence); subst prj.
+      destruct (Hx2 Hm) as [Hm'|Hf]; [exists i, pr'; auto|congruence].
+    + exists j, prj. split; auto. apply Hoth; auto.
+  - rewrite Hpk. apply (a_nd _ A).
+  - intros q sz Hin. rewrite Hpk in Hin. rewrite Hls. apply (a_vis _ A q sz Hin).
+  - intros j prj Hj Hpe. rewrite Hpk, Hls. destruct (Hsplit j prj Hj) as [[-> ->]|[Hne Hj0]].
+    + rewrite Hpend in Hpe. rewrite (Hcur Hpe). apply (a_pend _ A i pr Hp Hpe).
+    + apply (a_pend _ A j prj Hj0 Hpe).
+  - intros a b pa pb Hab Ha Hb Hpa Hpb.
+    destruct (Hsplit a pa Ha) as [[-> ->]|[Hna Ha0]]; destruct (Hsplit b pb Hb) as [[-> ->]|[Hnb Hb0]]; try congruence.
+    + rewrite Hpend in Hpa. rewrite (Hcur Hpa). apply (a_uniq _ A i b pr pb Hab Hp Hb0 Hpa Hpb).
+    + rewrite Hpend in Hpb. rewrite (Hcur Hpb). apply (a_uniq _ A a i pa pr Hab Ha0 Hp Hpa Hpb).
+    + apply (a_uniq _ A a b pa pb Hab Ha0 Hb0 Hpa Hpb).
+  - intros q Hq. rewrite Hls in Hq. rewrite Hpk. destruct (a_all _ A q Hq) as [Hin|(j & prj & Hj & Hpe & Hq2)]; auto.
+    right. destruct (Nat.eq_dec j i) as [->|Hne].
+    + assert (prj = pr) by (unfold proc_at in *; congruence); subst prj.
+      exists i, pr'. split; auto. split; [congruence|]. rewrite (Hcur Hpe); auto.
+    + exists j, prj. split; [apply Hoth; auto|auto].
+  - intros j prj Hj Hg. destruct (Hsplit j prj Hj) as [[-> ->]|[Hne Hj0]]; auto. apply (a_gc _ A j prj Hj0 Hg).
+  - intros j prj Hj Hn. rewrite Hrepo. destruct (Hsplit j prj Hj) as [[-> ->]|[Hne Hj0]]; auto. apply (a_repo _ A j prj Hj0 Hn).
+Qed.
+
+Definition acct_rel (pc : pcT) : bool :=
+  match pc with
+  | IRename | IOpenRepo | ICreateRepo | ILockRepo | IWrite | IUnlock | UOpenRepo
+  | GLock | GScan | GScanLock | GScanUnlock | GMove | GUnlock => true
+  | _ => false
+  end.
+
+Lemma pend_start : forall ops, pend (start_pc ops) = false.
+Proof. intros ops; destruct (start_pc_cases ops) as [E|[E|[E|[E|E]]]]; rewrite E; reflexivity. Qed.
+Lemma needs_repo_start : forall ops, needs_repo (start_pc ops) = false.
+Proof. intros ops; destruct (start_pc_cases ops) as [E|[E|[E|[E|E]]]]; rewrite E; reflexivity. Qed.
+Lemma pend_use_return : forall pr b, pend (p_pc (use_return pr b)) = false.
+Proof. intros; destruct (use_return_pc pr b) as [E|[E|E]]; rewrite E; reflexivity. Qed.
+Lemma pend_gc_return : forall pr b, pend (p_pc (gc_return pr b)) = false.
+Proof. intros; destruct (gc_return_pc pr b) as [E|E]; rewrite E; [reflexivity|apply pend_start]. Qed.
+Lemma needs_repo_use_return : forall pr b, needs_repo (p_pc (use_return pr b)) = false.
+Proof. intros; destruct (use_return_pc pr b) as [E|[E|E]]; rewrite E; reflexivity. Qed.
+Lemma needs_repo_gc_return : forall pr b, needs_repo (p_pc (gc_return pr b)) = false.
+Proof. intros; destruct (gc_return_pc pr b) as [E|E]; rewrite E; [reflexivity|apply needs_repo_start]. Qed.
+Lemma repo_mode_use_return : forall pr b, repo_mode (p_pc (use_return pr b)) = None.
+Proof. intros; destruct (use_return_pc pr b) as [E|[E|E]]; rewrite E; reflexivity. Qed.
+Lemma repo_mode_gc_return : forall pr b, repo_mode (p_pc (gc_return pr b)) = None.
+Proof. intros; destruct (gc_return_pc pr b) as [E|E]; rewrite E; [reflexivity|apply repo_mode_start]. Qed.
+
+Ltac simp_ret :=
+  rewrite ?finish_pc, ?pend_start, ?needs_repo_start, ?repo_mode_start, ?gphase_start,
+          ?pend_use_return, ?pend_gc_return, ?needs_repo_use_return, ?needs_repo_gc_return,
+          ?repo_mode_use_return, ?repo_mode_gc_return, ?gphase_use_return, ?gphase_gc_return in *.
+
+(* steps that touch neither repo.json nor the pending / locked / collecting status of their process *)
+Lemma step_frame : forall s i s' pr pr', step s i = Some s' -> proc_at s i pr -> proc_at s' i pr' ->
+  acct_rel (p_pc pr) = false ->
+  st_repo s' = st_repo s /\ st_rtrunc s' = st_rtrunc s /\
+  pend (p_pc pr') = false /\ repo_mode (p_pc pr') <> Some true /\ gphase (p_pc pr') = false /\
+  (needs_repo (p_pc pr') = true -> st_repo s <> None).
+Proof.
+  intros s i s' pr0 pr' H Hp0 Hp' R. unfold proc_at in *.
+  step_cases H pr Hpr Hpc; subst; inversion Hp0; subst pr0; clear Hp0;
+    rewrite Hpc in R; try discriminate R;
+    unfold flush_repo in *;
+    repeat match type of Hp' with context [if ?b then _ else _] => destruct b end;
+    simp_st; rewrite (nth_error_set_nth_same _ _ _ _ _ Hpr) in Hp'; inversion Hp'; subst pr'; clear Hp';
+    simp_ret; simp_st; repeat split; auto; try discriminate; try congruence.
+Qed.
+
+Lemma acct_rel_false : forall pc, acct_rel pc = false ->
+  pend pc = false /\ repo_mode pc <> Some true /\ gphase pc = false.
+Proof. destruct pc; cbn; intros; try discriminate; repeat split; auto; discriminate. Qed.
+
+Lemma repo_x_not_pend : forall pc, repo_mode pc = Some true -> pend pc = false.
+Proof. destruct pc; cbn; intros; try discriminate; auto. Qed.
+
+(* the exclusive holder leaves its critical section (everything flushed) *)
+Lemma acct_release : forall s s' i pr pr',
+  excl_repo s ->
+  (forall j prj, j <> i -> (proc_at s' j prj <-> proc_at s j prj)) ->
+  proc_at s i pr -> proc_at s' i pr' ->
+  repo_mode (p_pc pr) = Some true ->
+  st_repo s' = st_repo s -> st_rtrunc s' = false ->
+  (forall q, lsize s' q = lsize s q) ->
+  pend (p_pc pr') = false -> repo_mode (p_pc pr') <> Some true -> gphase (p_pc pr') = false ->
+  needs_repo (p_pc pr') = false ->
+  acct s -> acct s'.
+Proof.
+  intros s s' i pr pr' ER Hoth Hp Hp' Hm Hrepo Htr Hls Hpe Hm' Hg Hn A.
+  assert (Hpk : pkgs s' = pkgs s) by (unfold pkgs; rewrite Hrepo; reflexivity).
+  assert (Hpe0 : pend (p_pc pr) = false) by (apply repo_x_not_pend; auto).
+  assert (Hsplit : forall j prj, proc_at s' j prj -> (j = i /\ prj = pr') \/ (j <> i /\ proc_at s j prj)).
+  { intros j prj Hj. destruct (Nat.eq_dec j i) as [->|Hne].
+    - left; split; auto. unfold proc_at in *; congruence.
+    - right; split; auto. apply Hoth; auto. }
+  constructor.
+  - intros j prj Hj Hmj. destruct (Hsplit j prj Hj) as [[-> ->]|[Hne Hj0]]; [congruence|].
+    rewrite (ER i j pr prj) in Hmj; auto; discriminate.
+  - rewrite Htr; discriminate.
+  - rewrite Hpk. apply (a_nd _ A).
+  - intros q sz Hin. rewrite Hpk in Hin. rewrite Hls. apply (a_vis _ A q sz Hin).
+  - intros j prj Hj Hpj. rewrite Hpk, Hls. destruct (Hsplit j prj Hj) as [[-> ->]|[Hne Hj0]]; [congruence|].
+    apply (a_pend _ A j prj Hj0 Hpj).
+  - intros a b pa pb Hab Ha Hb Hpa Hpb.
+    destruct (Hsplit a pa Ha) as [[-> ->]|[Hna Ha0]]; destruct (Hsplit b pb Hb) as [[-> ->]|[Hnb Hb0]]; try congruence.
+    apply (a_uniq _ A a b pa pb Hab Ha0 Hb0 Hpa Hpb).
+  - intros q Hq. rewrite Hls in Hq. rewrite Hpk. destruct (a_all _ A q Hq) as [Hin|(j & prj & Hj & Hpj & Hq2)]; auto.
+    right. destruct (Nat.eq_dec j i) as [->|Hne].
+    + assert (prj = pr) by (unfold proc_at in *; congruence); subst prj. congruence.
+    + exists j, prj. split; [apply Hoth; auto|auto].
+  - intros j prj Hj Hgj. destruct (Hsplit j prj Hj) as [[-> ->]|[Hne Hj0]]; [congruence|]. apply (a_gc _ A j prj Hj0 Hgj).
+  - intros j prj Hj Hnj. rewrite Hrepo. destruct (Hsplit j prj Hj) as [[-> ->]|[Hne Hj0]]; [congruence|]. apply (a_repo _ A j prj Hj0 Hnj).
+Qed.
+
+(* Permutation facts for the sort *)
+Lemma insert_cand_perm : forall c l, Permutation (insert_cand c l) (c :: l).
+Proof.
+  induction l as [|x r IH]; cbn; auto. destruct (cand_leb c x); auto.
+  eapply perm_trans; [apply perm_skip; exact IH|apply perm_swap].
+Qed.
+
+Lemma sort_cands_perm : forall l, Permutation (sort_cands l) l.
+Proof.
+  induction l as [|x r IH]; cbn; auto. eapply perm_trans; [apply insert_cand_perm|]. auto.
+Qed.
+
+Lemma gc_ids_sorted : forall pr x, p_todo pr = [] -> gc_ids pr -> p_pc pr <> GMove ->
+  gc_ids (set_pc (set_gc pr [] (p_cands pr) (sort_cands (p_cands pr)) [] (p_scan pr)) x).
+Proof.
+  intros pr x Ht [G1 _] Hn. destruct (G1 Hn) as [ND IN]. unfold scan_ids in *. rewrite Ht, app_nil_r in *.
+  unfold gc_ids, scan_ids; simp_st. split; intros _.
+  - rewrite app_nil_r. auto.
+  - split.
+    + eapply Permutation_NoDup; [|exact ND]. apply Permutation_map. apply Permutation_sym, sort_cands_perm.
+    + intros c Hc. apply IN. apply in_map. apply In_sort_cands; auto.
+Qed.
+
+Lemma lsize_same_store : forall s s' q, st_store s' = st_store s -> lsize s' q = lsize s q.
+Proof. unfold lsize; intros s s' q E; rewrite E; reflexivity. Qed.
+
+Lemma lsize_lookup : forall s q, lsize s q <> None -> lookup q (st_store s) <> None.
+Proof. unfold lsize; intros s q H E; rewrite E in H; auto. Qed.
+
+Lemma In_keys_pair : forall A (l : list (N * A)) q, In q (map fst l) -> exists v, In (q, v) l.
+Proof.
+  intros A l q H. apply in_map_iff in H. destruct H as ([k v] & E & Hin). cbn in E; subst. eauto.
+Qed.
+
+Lemma proc_split : forall s s' i pr',
+  (forall j prj, j <> i -> (proc_at s' j prj <-> proc_at s j prj)) -> proc_at s' i pr' ->
+  forall j prj, proc_at s' j prj -> (j = i /\ prj = pr') \/ (j <> i /\ proc_at s j prj).
+Proof.
+  intros s s' i pr' Hoth Hp' j prj Hj. destruct (Nat.eq_dec j i) as [->|Hne].
+  - left; split; auto. unfold proc_at in *; congruence.
+  - right; split; auto. apply Hoth; auto.
+Qed.
+
+(* --- gc bookkeeping of package ids *)
+Lemma gc_ids_scan : forall pr pr', gc_ids pr -> p_pc pr <> GMove -> p_pc pr' <> GMove ->
+  p_meta pr' = p_meta pr -> (forall x, In x (scan_ids pr') -> In x (scan_ids pr)) -> NoDup (scan_ids pr') -> gc_ids pr'.
+Proof.
+  intros pr pr' [G1 _] Hn Hn' Hm Hsub ND. destruct (G1 Hn) as [_ IN]. split; [|intros E; congruence].
+  intros _. split; auto. intros x Hx. rewrite Hm. auto.
+Qed.
+
+Lemma gc_ids_queue_tail : forall pr pr' c rest, gc_ids pr -> p_pc pr = GMove -> p_queue pr = c :: rest ->
+  p_pc pr' = GMove -> p_queue pr' = rest ->
+  (p_meta pr' = p_meta pr \/ p_meta pr' = remove_key (c_id c) (p_meta pr)) -> gc_ids pr'.
+Proof.
+  intros pr pr' c rest [_ G2] Hpc Hq Hpc' Hq' Hm. destruct (G2 Hpc) as [ND IN]. rewrite Hq in *. cbn in ND.
+  apply NoDup_cons_iff in ND. destruct ND as [Hnin ND']. split; [intros E; congruence|]. intros _. rewrite Hq'. split; auto.
+  intros c' Hc'. destruct Hm as [-> | ->]; [apply IN; right; auto|].
+  apply keys_remove_key_In. split; [|apply IN; right; auto].
+  intros E. apply Hnin. rewrite <- E. apply in_map; auto.
+Qed.
+
+(* the installer has renamed its package into the store *)
+Lemma acct_rename : forall s s' i pr pr',
+  (forall j prj, j <> i -> (proc_at s' j prj <-> proc_at s j prj)) ->
+  proc_at s i pr -> proc_at s' i pr' ->
+  p_pc pr = IRename -> p_pc pr' = IOpenRepo -> cur pr' = cur pr ->
+  st_repo s' = st_repo s -> st_rtrunc s' = st_rtrunc s ->
+  lookup (o_pkg (cur pr)) (st_store s) = None ->
+  lsize s' (o_pkg (cur pr)) = Some (o_size (cur pr)) ->
+  (forall q, q <> o_pkg (cur pr) -> lsize s' q = lsize s q) ->
+  acct s -> acct s'.
+Proof.
+  intros s s' i pr pr' Hoth Hp Hp' Hpc Hpc' Hcur Hrepo Htr Hnone Hnew Hls A.
+  assert (Hpk : pkgs s' = pkgs s) by (unfold pkgs; rewrite Hrepo; reflexivity).
+  pose proof (proc_split s s' i pr' Hoth Hp') as Hsplit.
+  assert (Hfresh : forall q, lsize s q <> None -> q <> o_pkg (cur pr)).
+  { intros q Hq E. subst q. apply (lsize_lookup _ _ Hq). auto. }
+  constructor.
+  - intros j prj Hj Hm. rewrite Hrepo, Htr. destruct (Hsplit j prj Hj) as [[-> ->]|[Hne Hj0]].
+    + rewrite Hpc' in Hm; discriminate.
+    + apply (a_rl _ A j prj Hj0 Hm).
+  - rewrite Htr. intros Ht. destruct (a_rt _ A Ht) as (j & prj & Hj & Hm). exists j, prj. split; auto.
+    apply Hoth; auto. intros ->. assert (prj = pr) by (unfold proc_at in *; congruence); subst. rewrite Hpc in Hm; discriminate.
+  - rewrite Hpk. apply (a_nd _ A).
+  - intros q sz Hin. rewrite Hpk in Hin. pose proof (a_vis _ A q sz Hin) as Hv.
+    rewrite Hls; auto. apply Hfresh. congruence.
+  - intros j prj Hj Hpe. rewrite Hpk. destruct (Hsplit j prj Hj) as [[-> ->]|[Hne Hj0]].
+    + rewrite Hcur. split; auto. intros Hin. apply In_keys_pair in Hin. destruct Hin as (sz & Hin).
+      pose proof (a_vis _ A _ _ Hin) as Hv. apply (Hfresh (o_pkg (cur pr))); congruence.
+    + destruct (a_pend _ A j prj Hj0 Hpe) as [P1 P2]. split; auto. rewrite Hls; auto. apply Hfresh; congruence.
+  - intros a b pa pb Hab Ha Hb Hpa Hpb.
+    destruct (Hsplit a pa Ha) as [[-> ->]|[Hna Ha0]]; destruct (Hsplit b pb Hb) as [[-> ->]|[Hnb Hb0]]; try congruence.
+    + rewrite Hcur. destruct (a_pend _ A b pb Hb0 Hpb) as [P1 _]. intros E. apply (Hfresh (o_pkg (cur pb))); congruence.
+    + rewrite Hcur. destruct (a_pend _ A a pa Ha0 Hpa) as [P1 _]. apply Hfresh; congruence.
+    + apply (a_uniq _ A a b pa pb Hab Ha0 Hb0 Hpa Hpb).
+  - intros q Hq. rewrite Hpk. destruct (N.eq_dec q (o_pkg (cur pr))) as [->|Hne].
+    + right. exists i, pr'. rewrite Hpc', Hcur. auto.
+    + rewrite Hls in Hq by auto. destruct (a_all _ A q Hq) as [Hin|(j & prj & Hj & Hpj & Hq2)]; auto.
+      right. exists j, prj. split; auto. apply Hoth; auto. intros ->.
+      assert (prj = pr) by (unfold proc_at in *; congruence); subst. rewrite Hpc in Hpj; discriminate.
+  - intros j prj Hj Hg. destruct (Hsplit j prj Hj) as [[-> ->]|[Hne Hj0]]; [rewrite Hpc' in Hg; discriminate|].
+    apply (a_gc _ A j prj Hj0 Hg).
+  - intros j prj Hj Hn. rewrite Hrepo. destruct (Hsplit j prj Hj) as [[-> ->]|[Hne Hj0]]; [rewrite Hpc' in Hn; discriminate|].
+    apply (a_repo _ A j prj Hj0 Hn).
+Qed.
+
+Lemma In_set_key_nodup : forall A k k' (v v' : A) l, NoDup (map fst l) ->
+  In (k', v') (set_key k v l) -> (k' = k /\ v' = v) \/ (k' <> k /\ In (k', v') l).
+Proof.
+  induction l as [|[k2 v2] r IH]; cbn; intros ND H.
+  - destruct H as [H|[]]; inversion H; auto.
+  - inversion ND as [|x l0 Hnin ND']; subst. destruct (k =? k2) eqn:E; cbn in H.
+    + apply N.eqb_eq in E; subst k2. destruct H as [H|H]; [inversion H; auto|].
+      right. split; [|auto]. intros ->. apply Hnin. apply in_map_iff. exists (k, v'); auto.
+    + assert (k2 <> k) by (intros ->; rewrite N.eqb_refl in E; discriminate).
+      destruct H as [H|H]; [inversion H; subst; auto|]. destruct (IH ND' H) as [?|[? ?]]; auto.
+Qed.
+
+Lemma no_holder_free : forall s, acct s -> repo_free_x s = true -> st_rtrunc s = false.
+Proof.
+  intros s A Hf. destruct (st_rtrunc s) eqn:E; auto.
+  destruct (a_rt _ A E) as (j & prj & Hj & Hm). unfold repo_free_x in Hf.
+  pose proof (forallb_nth _ _ _ _ _ Hf Hj) as X. cbn in X. rewrite Hm in X. discriminate.
+Qed.
+
+Lemma free_no_x : forall s j prj, repo_free_x s = true -> proc_at s j prj -> repo_mode (p_pc prj) = None.
+Proof.
+  intros s j prj Hf Hj. unfold repo_free_x in Hf. pose proof (forallb_nth _ _ _ _ _ Hf Hj) as X. cbn in X.
+  destruct (repo_mode (p_pc prj)); [discriminate|reflexivity].
+Qed.
+
+(* somebody creates the empty repo.json *)
+Lemma acct_create : forall s s' i pr pr',
+  (forall j prj, j <> i -> (proc_at s' j prj <-> proc_at s j prj)) ->
+  proc_at s i pr -> proc_at s' i pr' ->
+  pend (p_pc pr') = pend (p_pc pr) -> repo_mode (p_pc pr') <> Some true -> gphase (p_pc pr') = false ->
+  cur pr' = cur pr ->
+  st_repo s = None -> st_repo s' = Some [] -> st_rtrunc s' = false ->
+  (forall q, lsize s' q = lsize s q) ->
+  acct s -> acct s'.
+Proof.
+  intros s s' i pr pr' Hoth Hp Hp' Hpe Hmode Hgp Hcur Hnone Hrepo Htr Hls A.
+  assert (Hpk : pkgs s' = pkgs s) by (unfold pkgs; rewrite Hrepo, Hnone; reflexivity).
+  pose proof (proc_split s s' i pr' Hoth Hp') as Hsplit.
+  assert (NoX : forall j prj, proc_at s j prj -> repo_mode (p_pc prj) <> Some true).
+  { intros j prj Hj Hm. destruct (a_rl _ A j prj Hj Hm). congruence. }
+  constructor.
+  - intros j prj Hj Hm. destruct (Hsplit j prj Hj) as [[-> ->]|[Hne Hj0]]; [congruence|].
+    exfalso; eapply NoX; eauto.
+  - rewrite Htr; discriminate.
+  - rewrite Hpk. apply (a_nd _ A).
+  - intros q sz Hin. rewrite Hpk in Hin. rewrite Hls. apply (a_vis _ A q sz Hin).
+  - intros j prj Hj Hpj. rewrite Hpk, Hls. destruct (Hsplit j prj Hj) as [[-> ->]|[Hne Hj0]].
+    + rewrite Hcur. apply (a_pend _ A i pr Hp). congruence.
+    + apply (a_pend _ A j prj Hj0 Hpj).
+  - intros a b pa pb Hab Ha Hb Hpa Hpb.
+    destruct (Hsplit a pa Ha) as [[-> ->]|[Hna Ha0]]; destruct (Hsplit b pb Hb) as [[-> ->]|[Hnb Hb0]]; try congruence.
+    + rewrite Hcur. apply (a_uniq _ A i b pr pb Hab Hp Hb0); congruence.
+    + rewrite Hcur. apply (a_uniq _ A a i pa pr Hab Ha0 Hp); congruence.
+    + apply (a_uniq _ A a b pa pb Hab Ha0 Hb0 Hpa Hpb).
+  - intros q Hq. rewrite Hls in Hq. rewrite Hpk. destruct (a_all _ A q Hq) as [Hin|(j & prj & Hj & Hpj & Hq2)]; auto.
+    right. destruct (Nat.eq_dec j i) as [->|Hne].
+    + assert (prj = pr) by (unfold proc_at in *; congruence); subst prj.
+      exists i, pr'. rewrite Hcur. split; auto. split; congruence.
+    + exists j, prj. split; [apply Hoth; auto|auto].
+  - intros j prj Hj Hg. destruct (Hsplit j prj Hj) as [[-> ->]|[Hne Hj0]]; [congruence|].
+    apply (a_gc _ A j prj Hj0 Hg).
+  - intros j prj Hj Hn. rewrite Hrepo. discriminate.
+Qed.
+
+(* the installer has the lock, has read repo.json and truncated it *)
+Lemma acct_lock : forall s s' i pr pr' l0,
+  (forall j prj, j <> i -> (proc_at s' j prj <-> proc_at s j prj)) ->
+  proc_at s i pr -> proc_at s' i pr' ->
+  p_pc pr = ILockRepo -> p_pc pr' = IWrite ->
+  repo_free_x s = true -> disk_repo s = Some l0 ->
+  st_repo s' = Some (set_key (o_pkg (cur pr)) (o_size (cur pr)) l0) -> st_rtrunc s' = true ->
+  p_meta pr' = set_key (o_pkg (cur pr)) (o_size (cur pr)) l0 -> p_dirty pr' = true ->
+  (forall q, lsize s' q = lsize s q) ->
+  acct s -> acct s'.
+Proof.
+  intros s s' i pr pr' l0 Hoth Hp Hp' Hpc Hpc' Hfree Hdisk Hrepo Htr Hmeta Hdirty Hls A.
+  pose proof (no_holder_free _ A Hfree) as Hnt.
+  assert (Hl0 : st_repo s = Some l0).
+  { unfold disk_repo in Hdisk. rewrite Hnt in Hdisk. destruct (st_repo s); congruence. }
+  assert (Hpk0 : pkgs s = l0) by (unfold pkgs; rewrite Hl0; reflexivity).
+  assert (Hpk : pkgs s' = set_key (o_pkg (cur pr)) (o_size (cur pr)) l0) by (unfold pkgs; rewrite Hrepo; reflexivity).
+  pose proof (proc_split s s' i pr' Hoth Hp') as Hsplit.
+  assert (Hpi : pend (p_pc pr) = true) by (rewrite Hpc; reflexivity).
+  destruct (a_pend _ A i pr Hp Hpi) as [Pi1 Pi2]. rewrite Hpk0 in Pi2.
+  pose proof (a_nd _ A) as ND. rewrite Hpk0 in ND.
+  constructor.
+  - intros j prj Hj Hm. destruct (Hsplit j prj Hj) as [[-> ->]|[Hne Hj0]]; [rewrite Hrepo, Htr, Hmeta, Hdirty; auto|].
+    rewrite (free_no_x _ _ _ Hfree Hj0) in Hm; discriminate.
+  - intros _. exists i, pr'. rewrite Hpc'. auto.
+  - rewrite Hpk. apply NoDup_set_key; auto.
+  - intros q sz Hin. rewrite Hpk in Hin. rewrite Hls.
+    destruct (In_set_key_nodup _ _ _ _ _ _ ND Hin) as [[-> ->]|[Hne Hin0]]; auto.
+    apply (a_vis _ A q sz). rewrite Hpk0; auto.
+  - intros j prj Hj Hpe. destruct (Hsplit j prj Hj) as [[-> ->]|[Hne Hj0]]; [rewrite Hpc' in Hpe; discriminate|].
+    destruct (a_pend _ A j prj Hj0 Hpe) as [P1 P2]. rewrite Hls, Hpk. split; auto.
+    rewrite keys_set_key_In. intros [E|Hin]; [|rewrite Hpk0 in P2; auto].
+    apply (a_uniq _ A j i prj pr Hne Hj0 Hp Hpe Hpi E).
+  - intros a b pa pb Hab Ha Hb Hpa Hpb.
+    destruct (Hsplit a pa Ha) as [[-> ->]|[Hna Ha0]]; [rewrite Hpc' in Hpa; discriminate|].
+    destruct (Hsplit b pb Hb) as [[-> ->]|[Hnb Hb0]]; [rewrite Hpc' in Hpb; discriminate|].
+    apply (a_uniq _ A a b pa pb Hab Ha0 Hb0 Hpa Hpb).
+  - intros q Hq. rewrite Hls in Hq. rewrite Hpk. destruct (a_all _ A q Hq) as [Hin|(j & prj & Hj & Hpj & Hq2)].
+    + left. rewrite keys_set_key_In. rewrite Hpk0 in Hin. auto.
+    + destruct (Nat.eq_dec j i) as [->|Hne].
+      * assert (prj = pr) by (unfold proc_at in *; congruence); subst prj.
+        left. rewrite keys_set_key_In. auto.
+      * right. exists j, prj. split; [apply Hoth; auto|auto].
+  - intros j prj Hj Hg. destruct (Hsplit j prj Hj) as [[-> ->]|[Hne Hj0]]; [rewrite Hpc' in Hg; discriminate|].
+    apply (a_gc _ A j prj Hj0 Hg).
+  - intros j prj Hj Hn. rewrite Hrepo. discriminate.
+Qed.
+
+(* gc moves package q to its attic and rewrites repo.json *)
+Lemma acct_collect : forall s s' i pr pr' q tr,
+  excl_repo s ->
+  (forall j prj, j <> i -> (proc_at s' j prj <-> proc_at s j prj)) ->
+  proc_at s i pr -> proc_at s' i pr' ->
+  repo_mode (p_pc pr) = Some true ->
+  In q (map fst (p_meta pr)) ->
+  st_repo s' = Some (remove_key q (p_meta pr)) -> st_rtrunc s' = tr ->
+  lsize s' q = None -> (forall q', q' <> q -> lsize s' q' = lsize s q') ->
+  pend (p_pc pr') = false -> needs_repo (p_pc pr') = false ->
+  (repo_mode (p_pc pr') = Some true -> p_meta pr' = remove_key q (p_meta pr) /\ p_dirty pr' = tr) ->
+  (repo_mode (p_pc pr') <> Some true -> tr = false) ->
+  (gphase (p_pc pr') = true -> gc_ids pr') ->
+  acct s -> acct s'.
+Proof.
+  intros s s' i pr pr' q tr ER Hoth Hp Hp' Hm Hq Hrepo Htr Hgone Hls Hpe Hn Hx Hnx Hg A.
+  destruct (a_rl _ A i pr Hp Hm) as [RL1 RL2].
+  assert (Hpk0 : pkgs s = p_meta pr) by (unfold pkgs; rewrite RL1; reflexivity).
+  assert (Hpk : pkgs s' = remove_key q (p_meta pr)) by (unfold pkgs; rewrite Hrepo; reflexivity).
+  pose proof (proc_split s s' i pr' Hoth Hp') as Hsplit.
+  assert (Hpe0 : pend (p_pc pr) = false) by (apply repo_x_not_pend; auto).
+  constructor.
+  - intros j prj Hj Hmj. destruct (Hsplit j prj Hj) as [[-> ->]|[Hne Hj0]].
+    + destruct (Hx Hmj) as [E1 E2]. rewrite Hrepo, Htr, E1, E2. auto.
+    + rewrite (ER i j pr prj) in Hmj; auto; discriminate.
+  - rewrite Htr. intros ->. exists i, pr'. split; auto.
+    destruct (repo_mode (p_pc pr')) as [[|]|] eqn:E; auto; exfalso; assert (true = false) by (apply Hnx; congruence); discriminate.
+  - rewrite Hpk. apply NoDup_remove_key. rewrite <- Hpk0. apply (a_nd _ A).
+  - intros q' sz Hin. rewrite Hpk in Hin. apply In_remove_key in Hin. destruct Hin as [Hne Hin].
+    rewrite Hls by auto. apply (a_vis _ A). rewrite Hpk0; auto.
+  - intros j prj Hj Hpj. destruct (Hsplit j prj Hj) as [[-> ->]|[Hne Hj0]]; [congruence|].
+    destruct (a_pend _ A j prj Hj0 Hpj) as [P1 P2]. rewrite Hpk0 in P2.
+    assert (o_pkg (cur prj) <> q) by (intros E; apply P2; rewrite E; auto).
+    rewrite Hls by auto. split; auto. rewrite Hpk, keys_remove_key_In. tauto.
+  - intros a b pa pb Hab Ha Hb Hpa Hpb.
+    destruct (Hsplit a pa Ha) as [[-> ->]|[Hna Ha0]]; [congruence|].
+    destruct (Hsplit b pb Hb) as [[-> ->]|[Hnb Hb0]]; [congruence|].
+    apply (a_uniq _ A a b pa pb Hab Ha0 Hb0 Hpa Hpb).
+  - intros q' Hq'. destruct (N.eq_dec q' q) as [->|Hne]; [congruence|].
+    rewrite Hls in Hq' by auto. rewrite Hpk. destruct (a_all _ A q' Hq') as [Hin|(j & prj & Hj & Hpj & Hq2)].
+    + left. rewrite keys_remove_key_In. rewrite Hpk0 in Hin. auto.
+    + right. exists j, prj. split; auto. apply Hoth; auto. intros ->.
+      assert (prj = pr) by (unfold proc_at in *; congruence); subst. congruence.
+  - intros j prj Hj Hgj. destruct (Hsplit j prj Hj) as [[-> ->]|[Hne Hj0]]; auto. apply (a_gc _ A j prj Hj0 Hgj).
+  - intros j prj Hj Hnj. rewrite Hrepo. discriminate.
+Qed.
+
+Lemma gc_ids_scan_eq : forall pr pr', gc_ids pr -> p_pc pr <> GMove -> p_pc pr' <> GMove ->
+  p_meta pr' = p_meta pr -> scan_ids pr' = scan_ids pr -> gc_ids pr'.
+Proof.
+  intros pr pr' G Hn Hn' Hm E. apply (gc_ids_scan pr pr' G Hn Hn' Hm).
+  - intros x; rewrite E; auto.
+  - rewrite E. destruct G as [G1 _]. apply G1; auto.
+Qed.
+
+Lemma gc_ids_scan_drop : forall pr pr' A n R, gc_ids pr -> p_pc pr <> GMove -> p_pc pr' <> GMove ->
+  p_meta pr' = p_meta pr -> scan_ids pr = A ++ n :: R -> scan_ids pr' = A ++ R -> gc_ids pr'.
+Proof.
+  intros pr pr' A n R G Hn Hn' Hm E E'. apply (gc_ids_scan pr pr' G Hn Hn' Hm).
+  - intros x; rewrite E, E'. rewrite !in_app_iff. cbn. tauto.
+  - rewrite E'. destruct G as [G1 _]. destruct (G1 Hn) as [ND _]. rewrite E in ND. eapply NoDup_remove_1; eauto.
+Qed.
+
+Ltac own_proc Hpr := unfold proc_at; cbn [st_procs upd_proc with_store with_repo with_links with_log with_dir]; eapply nth_error_set_nth_same; exact Hpr.
+
+Lemma acct_step : forall s i s', base_inv s -> acct s -> step s i = Some s' -> acct s'.
+Proof.
+  intros s i s' B A H.
+  destruct (step_proc_at_self _ _ _ H) as (pr & pr' & Hp & Hp').
+  pose proof (fun j prj (Hne : j <> i) => step_proc_at_other s i s' j prj H Hne) as Hoth.
+  pose proof H as Hstep.
+  destruct (acct_rel (p_pc pr)) eqn:R.
+  2:{ destruct (step_frame _ _ _ _ _ H Hp Hp' R) as (E1 & E2 & E3 & E4 & E5 & E6).
+      destruct (acct_rel_false _ R) as (F1 & F2 & F3).
+      apply (acct_transfer s s' i pr pr'); auto; try congruence.
+      intros q. destruct (step_lsize _ _ _ _ q (b_ul _ B) (b_tmp _ B) H Hp) as [E|[(Ec & _)|(Ec & _)]]; auto;
+        rewrite Ec in R; discriminate R. }
+  unfold proc_at in Hp, Hp'.
+  step_cases H pr0 Hpr Hpc; subst; inversion Hp; subst pr0; clear Hp;
+    rewrite Hpc in R; try discriminate R; clear R;
+    unfold flush_repo in *.
+  all: repeat match type of Hp' with context [if ?b then _ else _] => destruct b eqn:? end;
+       simp_st; rewrite (nth_error_set_nth_same _ _ _ _ _ Hpr) in Hp'; inversion Hp'; subst pr'; clear Hp';
+       norm_next.
+  (* generic: nothing relevant changes *)
+  all: try (solve [ eapply (acct_transfer s _ i pr); try exact Hoth; try exact A; try exact Hpr;
+                    try (own_proc Hpr);
+                    simp_st; simp_cur; rewrite ?Hpc; cbn [pend repo_mode gphase needs_repo];
+                    auto; try congruence; try discriminate;
+                    try (intros; apply lsize_same_store; reflexivity) ]).
+  (* the file does not exist although somebody is about to lock it: impossible *)
+  all: try (solve [ exfalso; apply (a_repo _ A i pr Hpr); [rewrite Hpc; reflexivity|];
+                    unfold disk_repo in *; destruct (st_repo s); [discriminate|reflexivity] ]).
+  (* the holder of the exclusive lock leaves *)
+  all: try (solve [ destruct (a_rl _ A i pr Hpr ltac:(rewrite Hpc; reflexivity)) as [RL1 RL2];
+                    eapply (acct_release s _ i pr);
+                    [exact (b_er _ B)|exact Hoth|exact Hpr|own_proc Hpr|rewrite Hpc; reflexivity
+                    |simp_st; congruence|simp_st; congruence|intros; apply lsize_same_store; reflexivity
+                    |simp_ret; simp_st; auto; try discriminate
+                    |simp_ret; simp_st; auto; try discriminate
+                    |simp_ret; simp_st; auto; try discriminate
+                    |simp_ret; simp_st; auto; try discriminate
+                    |exact A] ]).
+  (* IRename: the package appears in the store *)
+  all: try (match goal with Hpc : p_pc _ = IRename |- _ => idtac end;
+       destruct (b_tmp _ B i pr Hpr) as [_ T2]; destruct (T2 Hpc) as (d0 & m & Hd & Ha & Hm & Ht & Hs & _);
+       rewrite Hd in *; inv_some;
+       eapply (acct_rename s _ i pr); [exact Hoth|exact Hpr|own_proc Hpr|exact Hpc|reflexivity|reflexivity|reflexivity|reflexivity
+         |apply has_key_false; assumption
+         |unfold lsize; simp_st; rewrite lookup_app_new by (apply has_key_false; assumption); rewrite Hm; congruence
+         |intros q Hne; unfold lsize; simp_st; rewrite lookup_app_other by auto; reflexivity
+         |exact A]).
+  (* ICreateRepo *)
+  all: try (match goal with |- acct (upd_proc (with_repo _ (Some []) false) _ _) => idtac end;
+       eapply (acct_create s _ i pr); [exact Hoth|exact Hpr|own_proc Hpr|simp_st; rewrite Hpc; reflexivity
+         |simp_st; discriminate|reflexivity|reflexivity|assumption
+         |reflexivity|reflexivity|intros; apply lsize_same_store; reflexivity|exact A]).
+  (* ILockRepo *)
+  all: try (match goal with Hpc : p_pc _ = ILockRepo |- _ => idtac end;
+       eapply (acct_lock s _ i pr); [exact Hoth|exact Hpr|own_proc Hpr|exact Hpc|reflexivity|assumption|eassumption
+         |reflexivity|reflexivity|reflexivity|reflexivity|intros; apply lsize_same_store; reflexivity|exact A]).
+  (* steps of the exclusive holder that leave repo.json alone: what remains is the bookkeeping of gc *)
+  all: try (match goal with Hpc : p_pc _ = GLock |- _ => fail 1 | _ => idtac end;
+       match goal with |- acct (upd_proc (with_log _ _) _ _) => fail 1 | |- acct (upd_proc (with_repo _ _ _) _ _) => fail 1 | _ => idtac end;
+       eapply (acct_transfer s _ i pr);
+         [exact Hoth|exact Hpr|own_proc Hpr|reflexivity|reflexivity|intros; apply lsize_same_store; reflexivity
+         |simp_st; rewrite ?Hpc; reflexivity
+         |intros; simp_cur; reflexivity
+         |intros _; simp_st; exact (a_rl _ A i pr Hpr ltac:(rewrite Hpc; reflexivity))
+         |intros _; left; reflexivity
+         |intros Hgp; try (cbn in Hgp; discriminate Hgp); pose proof (a_gc _ A i pr Hpr ltac:(rewrite Hpc; reflexivity)) as G
+         |simp_st; cbn; discriminate
+         |exact A]).
+  all: try (match goal with G : gc_ids ?p |- gc_ids _ =>
+         first
+         [ (* same ids *)
+           apply (gc_ids_scan_eq p); [exact G|rewrite Hpc; discriminate|simp_st; discriminate|reflexivity
+             |unfold scan_ids; simp_st; rewrite ?Heql; cbn [map]; rewrite ?map_app, <- ?app_assoc; reflexivity]
+         | (* the head of the todo list is dropped *)
+           eapply (gc_ids_scan_drop p); [exact G|rewrite Hpc; discriminate|simp_st; discriminate|reflexivity
+             |unfold scan_ids; simp_st; rewrite Heql; cbn [map fst]; reflexivity
+             |unfold scan_ids; simp_st; reflexivity]
+         | (* the collection loop proceeds *)
+           eapply (gc_ids_queue_tail p); [exact G|exact Hpc|eassumption|reflexivity|reflexivity|left; reflexivity]
+         | (* sorted *)
+           apply gc_ids_sorted; [assumption|exact G|rewrite Hpc; discriminate] ] end).
+  (* GScan skipped the last package: sort *)
+  all: try (match goal with G : gc_ids ?p |- gc_ids _ =>
+         apply gc_ids_sorted;
+           [simp_st; assumption
+           |eapply (gc_ids_scan_drop p); [exact G|rewrite Hpc; discriminate|simp_st; rewrite Hpc; discriminate|reflexivity
+             |unfold scan_ids; simp_st; rewrite Heql; cbn [map fst]; reflexivity
+             |unfold scan_ids; simp_st; reflexivity]
+           |simp_st; rewrite Hpc; discriminate] end).
+  (* GLock: gc enters its critical section *)
+  all: try (match goal with Hpc : p_pc _ = GLock |- _ => idtac end;
+       pose proof (no_holder_free _ A Heqb) as Hnt;
+       assert (Hl : st_repo s = Some l) by (unfold disk_repo in Heqo; rewrite Hnt in Heqo; destruct (st_repo s); congruence);
+       eapply (acct_transfer s _ i pr);
+         [exact Hoth|exact Hpr|own_proc Hpr|reflexivity|reflexivity|intros; apply lsize_same_store; reflexivity
+         |simp_ret; simp_st; rewrite ?Hpc; reflexivity
+         |intros Hpe; first [rewrite Hpc in Hpe; discriminate Hpe|simp_cur; reflexivity]
+         |intros _; simp_st; split; assumption
+         |intros Hm; rewrite Hpc in Hm; discriminate Hm
+         |intros Hgp; simp_ret;
+          first [cbn in Hgp; discriminate Hgp
+                |unfold gc_ids, scan_ids; simp_st; cbn [map app sort_cands fold_right];
+                 split; [intros Hn; first [exfalso; apply Hn; reflexivity
+                                         |split; [pose proof (a_nd _ A) as ND; unfold pkgs in ND; rewrite Hl in ND; exact ND|auto]]
+                        |intros _; split; [constructor|intros ? []]]]
+         |simp_ret; simp_st; cbn; try discriminate; auto
+         |exact A]).
+  (* GMove: a package goes to the attic *)
+  all: try (match goal with Hpc : p_pc _ = GMove |- _ => idtac end;
+       pose proof (a_gc _ A i pr Hpr ltac:(rewrite Hpc; reflexivity)) as G;
+       eapply (acct_collect s _ i pr _ (c_id c));
+         [exact (b_er _ B)|exact Hoth|exact Hpr|own_proc Hpr|rewrite Hpc; reflexivity
+         |destruct G as [_ G2]; destruct (G2 Hpc) as [_ IN]; apply IN; rewrite Heql; left; reflexivity
+         |reflexivity|reflexivity
+         |unfold lsize; simp_st; rewrite lookup_remove_key_same; reflexivity
+         |intros q' Hne; unfold lsize; simp_st; rewrite lookup_remove_key_other by auto; reflexivity
+         |simp_ret; simp_st; reflexivity
+         |simp_ret; simp_st; reflexivity
+         |intros _; simp_st; split; reflexivity
+         |simp_ret; simp_st; intros Hn; try reflexivity; exfalso; apply Hn; reflexivity
+         |simp_ret; simp_st; intros Hgp;
+          first [cbn in Hgp; discriminate Hgp
+                |eapply (gc_ids_queue_tail pr); [exact G|exact Hpc|exact Heql|reflexivity|reflexivity|right; reflexivity]]
+         |exact A]).
+  (* useSharedPackage without a store directory *)
+  all: try (eapply (acct_transfer s _ i pr);
+         [exact Hoth|exact Hpr|own_proc Hpr|reflexivity|reflexivity|intros; apply lsize_same_store; reflexivity
+         |simp_ret; rewrite Hpc; reflexivity
+         |intros Hpe; rewrite Hpc in Hpe; discriminate Hpe
+         |intros Hm; simp_ret; discriminate Hm
+         |intros Hm; rewrite Hpc in Hm; discriminate Hm
+         |intros Hg; simp_ret; discriminate Hg
+         |intros Hn; simp_ret; discriminate Hn
+         |exact A]).
+Qed.
+
+Lemma acct_init : forall procs, wf_procs procs -> acct (init dir procs).
+Proof.
+  intros procs WF. constructor; cbn.
+  - intros i pr Hi Hm. destruct (wf_start _ _ _ WF Hi) as (ops & E). rewrite E, repo_mode_start in Hm. discriminate.
+  - discriminate.
+  - constructor.
+  - intros q sz [].
+  - intros i pr Hi Hpe. destruct (wf_start _ _ _ WF Hi) as (ops & E). rewrite E, pend_start in Hpe. discriminate.
+  - intros i j pi pj _ Hi _ Hpe. destruct (wf_start _ _ _ WF Hi) as (ops & E). rewrite E, pend_start in Hpe. discriminate.
+  - intros q Hq. exfalso; apply Hq. reflexivity.
+  - intros i pr Hi Hg. destruct (wf_start _ _ _ WF Hi) as (ops & E). rewrite E, gphase_start in Hg. discriminate.
+  - intros i pr Hi Hn. destruct (wf_start _ _ _ WF Hi) as (ops & E). rewrite E, needs_repo_start in Hn. discriminate.
+Qed.
+
+Lemma both_run : forall s sched, base_inv s -> acct s -> base_inv (run s sched) /\ acct (run s sched).
+Proof.
+  intros s sched; revert s. induction sched as [|a r IH]; intros s B A; cbn; auto.
+  apply IH.
+  - apply base_act; auto.
+  - destruct a as [i|]; cbn [act].
+    + destruct (step s i) eqn:E; auto. eapply acct_step; eauto.
+    + destruct A. constructor; auto.
+Qed.
+
+(* repo.json versus the installed packages, at every point of every interleaving *)
+Lemma repo_size_is_sum_proof : forall procs sched,
+  wf_procs procs ->
+  let s := run (init dir procs) sched in
+  NoDup (map fst (pkgs s)) /\
+  (forall q sz, In (q, sz) (pkgs s) ->
+     exists d m, lookup q (st_store s) = Some d /\ d_meta d = Some m /\ m_size m = sz) /\
+  (forall q, has_key q (st_store s) = true ->
+     In q (map fst (pkgs s)) \/
+     exists i pr, nth_error (st_procs s) i = Some pr /\ pend (p_pc pr) = true /\ o_pkg (cur pr) = q) /\
+  (forall i pr, nth_error (st_procs s) i = Some pr -> repo_mode (p_pc pr) = Some true ->
+     pkgs s = p_meta pr /\ st_rtrunc s = p_dirty pr) /\
+  ((forall i pr, nth_error (st_procs s) i = Some pr -> repo_mode (p_pc pr) <> Some true) -> disk_repo s = st_repo s).
+Proof.
+  intros procs sched WF s.
+  destruct (both_run _ sched (base_init _ WF) (acct_init _ WF)) as [B A]. fold s in B, A.
+  split; [apply (a_nd _ A)|]. split; [|split; [|split]].
+  - intros q sz Hin. pose proof (a_vis _ A q sz Hin) as Hv. unfold lsize in Hv.
+    destruct (lookup q (st_store s)) as [d|] eqn:E; [|discriminate].
+    destruct (d_meta d) as [m|] eqn:Em; [|discriminate]. inversion Hv; eauto.
+  - intros q Hq. apply has_key_lookup in Hq. destruct Hq as (d & Hd).
+    apply (a_all _ A q). unfold lsize. rewrite Hd.
+    destruct (b_vis _ B q d Hd) as (_ & m & Hm & _). rewrite Hm. discriminate.
+  - intros i pr Hi Hm. destruct (a_rl _ A i pr Hi Hm) as [E1 E2]. split; auto. unfold pkgs; rewrite E1; reflexivity.
+  - intros Hno. unfold disk_repo. destruct (st_repo s); auto. destruct (st_rtrunc s) eqn:Et; auto.
+    destruct (a_rt _ A Et) as (j & prj & Hj & Hm). exfalso; eapply Hno; eauto.
+Qed.
+
+(* ------------------------------------------------------------------ a truncated pkg.json belongs to a writer holding its lock *)
+Definition trunc_held (s : state) : Prop :=
+  forall q d, lookup q (st_store s) = Some d -> d_trunc d = true ->
+    exists j prj, proc_at s j prj /\ (p_pc prj = UWrite \/ p_pc prj = UUnlockPkg) /\ o_pkg (cur prj) = q.
+
+Lemma trunc_held_step : forall s i s', base_inv s -> trunc_held s -> step s i = Some s' -> trunc_held s'.
+Proof.
+  intros s i s' B TH H q d Hq Ht.
+  destruct (step_proc_at_self _ _ _ H) as (pr & pr' & Hp & Hp').
+  pose proof (fun j prj (Hne : j <> i) => step_proc_at_other s i s' j prj H Hne) as Hoth.
+  assert (Keep : forall d0, lookup q (st_store s) = Some d0 -> d_trunc d0 = true ->
+                 (p_pc pr = UWrite \/ p_pc pr = UUnlockPkg -> o_pkg (cur pr) = q ->
+                    (p_pc pr' = UWrite \/ p_pc pr' = UUnlockPkg) /\ cur pr' = cur pr) ->
+                 exists j prj, proc_at s' j prj /\ (p_pc prj = UWrite \/ p_pc prj = UUnlockPkg) /\ o_pkg (cur prj) = q).
+  { intros d0 Hd0 Ht0 Hown. destruct (TH q d0 Hd0 Ht0) as (j & prj & Hj & Hpcj & Hqj).
+    destruct (Nat.eq_dec j i) as [->|Hne].
+    - assert (prj = pr) by (unfold proc_at in *; congruence); subst prj.
+      destruct (Hown Hpcj Hqj) as [Hpc' Hcur]. exists i, pr'. rewrite Hcur. auto.
+    - exists j, prj. split; auto. apply Hoth; auto. }
+  unfold proc_at in Hp, Hp'.
+  step_cases H pr0 Hpr Hpc; subst; inversion Hp; subst pr0; clear Hp;
+    unfold flush_repo in *;
+    repeat match type of Hp' with context [if ?b then _ else _] => destruct b eqn:? end;
+    repeat match type of Hq with context [if ?b then _ else _] => destruct b eqn:? end;
+    simp_st; rewrite (nth_error_set_nth_same _ _ _ _ _ Hpr) in Hp'; inversion Hp'; subst pr'; clear Hp';
+    norm_next; simp_st;
+    try (solve [ apply (Keep d Hq Ht); intros [E|E] _; rewrite Hpc in E; discriminate E ]).
+  - (* IRename *)
+    destruct (N.eq_dec q (o_pkg (cur pr))) as [->|Hne].
+    + rewrite lookup_app_new in Hq by (apply has_key_false; auto). inversion Hq; subst.
+      destruct (b_tmp _ B i pr Hpr) as [_ T2]. destruct (T2 Hpc) as (d0 & m & Hd & _ & _ & _ & _ & Hf).
+      rewrite Hd in *. inv_some. congruence.
+    + rewrite lookup_app_other in Hq by auto. apply (Keep d Hq Ht). intros [E|E] _; rewrite Hpc in E; discriminate E.
+  - (* ULockPkg: truncates *)
+    destruct (N.eq_dec q (o_pkg (cur pr))) as [->|Hne].
+    + exists i. eexists. split; [own_proc Hpr|]. simp_st. simp_cur. auto.
+    + rewrite lookup_set_key_other in Hq by auto. apply (Keep d Hq Ht). intros [E|E] _; rewrite Hpc in E; discriminate E.
+  - (* UWrite, buffered *)
+    apply (Keep d Hq Ht). intros _ _. simp_st. simp_cur. auto.
+  - (* UWrite, utime *)
+    destruct (N.eq_dec q (o_pkg (cur pr))) as [->|Hne].
+    + exists i. eexists. split; [own_proc Hpr|]. simp_st. simp_cur. auto.
+    + rewrite lookup_set_key_other in Hq by auto. apply (Keep d Hq Ht). intros _ E; congruence.
+  - (* UUnlockPkg, flush *)
+    destruct (N.eq_dec q (o_pkg (cur pr))) as [->|Hne].
+    + rewrite lookup_set_key_same in Hq. inversion Hq; subst. cbn in Ht. discriminate.
+    + rewrite lookup_set_key_other in Hq by auto. apply (Keep d Hq Ht). intros _ E; congruence.
+  - (* UUnlockPkg, nothing buffered *)
+    destruct (b_ul _ B i pr Hpr (or_intror Hpc)) as (d0 & Hd0 & _ & Htr).
+    destruct (N.eq_dec q (o_pkg (cur pr))) as [->|Hne].
+    + rewrite Hd0 in Hq. inversion Hq; subst. congruence.
+    + apply (Keep d Hq Ht). intros _ E; congruence.
+  - apply lookup_remove_key_some in Hq. apply (Keep d Hq Ht). intros [E|E] _; rewrite Hpc in E; discriminate E.
+  - apply lookup_remove_key_some in Hq. apply (Keep d Hq Ht). intros [E|E] _; rewrite Hpc in E; discriminate E.
+  - apply lookup_remove_key_some in Hq. apply (Keep d Hq Ht). intros [E|E] _; rewrite Hpc in E; discriminate E.
+  - apply lookup_remove_key_some in Hq. apply (Keep d Hq Ht). intros [E|E] _; rewrite Hpc in E; discriminate E.
+Qed.
+
+(* ------------------------------------------------------------------ no spurious failure *)
+Lemma move_next_inr : forall pr f, move_next pr = inr f -> f = FType /\ p_quota pr = None.
+Proof.
+  unfold move_next; intros pr f H. destruct (p_queue pr); [discriminate|].
+  destruct (gc_break pr c) as [[|]|] eqn:E; inversion H; split; auto.
+  unfold gc_break in E. destruct (negb (c_unused c) || negb (g_unused pr)); [|discriminate].
+  destruct (p_quota pr); [discriminate|reflexivity].
+Qed.
+
+Lemma after_scan_inr : forall pr f, after_scan pr = inr f -> f = FType /\ p_quota pr = None.
+Proof.
+  unfold after_scan; intros pr f H. destruct (p_todo pr); [|discriminate].
+  apply move_next_inr in H. exact H.
+Qed.
+
+Lemma p_res_gc_return : forall pr sz f, In (RFail f) (p_res (gc_return pr sz)) -> In (RFail f) (p_res pr).
+Proof.
+  unfold gc_return; intros pr sz f H. destruct (o_kind (cur pr)); cbn in H; auto.
+  destruct H as [H|H]; [discriminate|auto].
+Qed.
+
+Lemma p_res_use_return : forall pr b, p_res (use_return pr b) = p_res pr.
+Proof. unfold use_return; intros; destruct (o_kind (cur pr)); reflexivity. Qed.
+
+Lemma step_new_failure : forall s i s' pr pr' f,
+  base_inv s -> acct s -> trunc_held s -> step s i = Some s' -> proc_at s i pr -> proc_at s' i pr' ->
+  In (RFail f) (p_res pr') -> In (RFail f) (p_res pr) \/ f = FHash \/ (f = FType /\ p_quota pr = None).
+Proof.
+  intros s i s' pr0 pr' f B A TH H Hp0 Hp' Hin. unfold proc_at in *.
+  step_cases H pr Hpr Hpc; subst; inversion Hp0; subst pr0; clear Hp0;
+    unfold flush_repo in *;
+    repeat match type of Hp' with context [if ?b then _ else _] => destruct b eqn:? end;
+    simp_st; rewrite (nth_error_set_nth_same _ _ _ _ _ Hpr) in Hp'; inversion Hp'; subst pr'; clear Hp';
+    norm_next; simp_st;
+    rewrite ?p_res_use_return in Hin; try (apply p_res_gc_return in Hin); simp_st;
+    try (left; exact Hin);
+    try (destruct Hin as [Hin|Hin]; [inversion Hin; subst; clear Hin|left; exact Hin]);
+    try (right; left; reflexivity);
+    try (match goal with E : after_scan _ = inr _ |- _ => apply after_scan_inr in E; destruct E as [-> E]; right; right; split; [reflexivity|exact E] end);
+    try (match goal with E : move_next _ = inr _ |- _ => apply move_next_inr in E; destruct E as [-> E]; right; right; split; [reflexivity|exact E] end);
+    try discriminate.
+  all: exfalso.
+  (* the remaining cases are impossible *)
+  all: try (solve [ apply (a_repo _ A i pr Hpr); [rewrite Hpc; reflexivity|];
+                    unfold disk_repo in *; destruct (st_repo s); [discriminate|reflexivity] ]).
+  all: try (solve [
+    match goal with Hl : lookup ?q (st_store _) = Some ?d, Hd : disk_meta ?d = None |- _ =>
+      destruct (b_vis _ B q d Hl) as (_ & m & Hm & _); unfold disk_meta in Hd; destruct (d_trunc d) eqn:Et; [|congruence];
+      destruct (TH q d Hl Et) as (j & prj & Hj & Hpcj & Hqj);
+      first [ eapply (pkg_free_x_nth s q j prj true); [eassumption|exact Hj|rewrite <- Hqj; apply pkg_lock_use; exact Hpcj]
+            | eapply (pkg_free_s_nth s q j prj); [eassumption|exact Hj|rewrite <- Hqj; apply pkg_lock_use; exact Hpcj] ] end ]).
+  all: try (solve [
+    destruct (a_rl _ A i pr Hpr ltac:(rewrite Hpc; reflexivity)) as [RL1 _];
+    destruct (a_gc _ A i pr Hpr ltac:(rewrite Hpc; reflexivity)) as [_ G2]; destruct (G2 Hpc) as [_ IN];
+    match goal with Hq : p_queue _ = ?c :: _ , Hk : has_key (c_id ?c) (st_store _) = false |- _ =>
+      assert (Hin2 : In (c_id c) (map fst (p_meta pr))) by (apply IN; rewrite Hq; left; reflexivity);
+      apply In_keys_pair in Hin2; destruct Hin2 as (sz & Hin2);
+      assert (Hv : lsize s (c_id c) = Some sz) by (apply (a_vis _ A); unfold pkgs; rewrite RL1; exact Hin2);
+      apply has_key_false in Hk; unfold lsize in Hv; rewrite Hk in Hv; discriminate Hv end ]).
+Qed.
+
+Definition res_ok (s : state) : Prop :=
+  forall i pr f, proc_at s i pr -> In (RFail f) (p_res pr) -> f = FHash \/ (f = FType /\ p_quota pr = None).
+
+Lemma step_quota : forall s i s' pr pr', step s i = Some s' -> proc_at s i pr -> proc_at s' i pr' -> p_quota pr' = p_quota pr.
+Proof.
+  intros s i s' pr0 pr' H Hp0 Hp'. unfold proc_at in *.
+  step_cases H pr Hpr Hpc; subst; inversion Hp0; subst pr0; clear Hp0;
+    unfold flush_repo in *;
+    repeat match type of Hp' with context [if ?b then _ else _] => destruct b eqn:? end;
+    simp_st; rewrite (nth_error_set_nth_same _ _ _ _ _ Hpr) in Hp'; inversion Hp'; subst pr'; clear Hp';
+    norm_next; simp_st; auto;
+    try (unfold use_return; destruct (o_kind (cur pr)); reflexivity);
+    try (unfold gc_return; match goal with |- context [o_kind ?x] => destruct (o_kind x) end; reflexivity).
+Qed.
+
+Record full_inv (s : state) : Prop := {
+  f_base : base_inv s;
+  f_acct : acct s;
+  f_trunc : trunc_held s;
+  f_res : res_ok s
+}.
+
+Lemma full_init : forall procs, wf_procs procs -> full_inv (init dir procs).
+Proof.
+  intros procs WF. constructor.
+  - apply base_init; auto.
+  - apply acct_init; auto.
+  - intros q d H; cbn in H; discriminate.
+  - intros i pr f Hi Hin. destruct (WF pr) as (q & a & ops & ->); [eapply nth_error_In; exact Hi|]. destruct Hin.
+Qed.
+
+Lemma full_step : forall s i s', full_inv s -> step s i = Some s' -> full_inv s'.
+Proof.
+  intros s i s' [B A TH R] H. constructor.
+  - eapply base_step; eauto.
+  - eapply acct_step; eauto.
+  - eapply trunc_held_step; eauto.
+  - intros j prj f Hj Hin. destruct (Nat.eq_dec j i) as [->|Hne].
+    + destruct (step_proc_at_self _ _ _ H) as (pr & pr' & Hp & Hp').
+      assert (prj = pr') by (unfold proc_at in *; congruence); subst prj.
+      rewrite (step_quota _ _ _ _ _ H Hp Hp').
+      destruct (step_new_failure _ _ _ _ _ f B A TH H Hp Hp' Hin) as [Hold|[E|E]]; auto.
+      apply (R i pr f Hp Hold).
+    + apply (step_proc_at_other _ _ _ j prj H) in Hj; auto. apply (R j prj f Hj Hin).
+Qed.
+
+Lemma full_run : forall s sched, full_inv s -> full_inv (run s sched).
+Proof.
+  intros s sched; revert s. induction sched as [|a r IH]; intros s F; cbn; auto.
+  apply IH. destruct a as [i|]; cbn [act].
+  - destruct (step s i) eqn:E; auto. eapply full_step; eauto.
+  - destruct F as [[ER EP UL T V] [A1 A2 A3 A4 A5 A6 A7 A8 A9] TH R]. constructor; [constructor|constructor| |]; auto.
+Qed.
+
+Lemma no_spurious_failure_proof : forall procs sched i pr f,
+  wf_procs procs -> nth_error (st_procs (run (init dir procs) sched)) i = Some pr -> In (RFail f) (p_res pr) ->
+  f = FHash \/ (f = FType /\ p_quota pr = None).
+Proof.
+  intros procs sched i pr f WF Hi Hin. exact (f_res _ (full_run _ sched (full_init _ WF)) i pr f Hi Hin).
+Qed.
+
+Lemma truncated_has_writer_proof : forall procs sched q d,
+  wf_procs procs -> lookup q (st_store (run (init dir procs) sched)) = Some d -> d_trunc d = true ->
+  exists j prj, nth_error (st_procs (run (init dir procs) sched)) j = Some prj /\
+     pkg_lock prj = Some (q, true) /\ p_dirty prj = true /\ d_meta d = Some (p_pmeta prj).
+Proof.
+  intros procs sched q d WF Hq Ht. pose proof (full_run _ sched (full_init _ WF)) as F.
+  destruct (f_trunc _ F q d Hq Ht) as (j & prj & Hj & Hpc & Hqj).
+  destruct (b_ul _ (f_base _ F) j prj Hj Hpc) as (d0 & Hd0 & Hm & Htr). rewrite Hqj, Hq in Hd0. inversion Hd0; subst d0.
+  exists j, prj. split; auto. split; [rewrite <- Hqj; apply pkg_lock_use; auto|]. split; congruence.
+Qed.
+
+(* ------------------------------------------------------------------ installed at most once per build-id *)
+Lemma has_key_set_key_present : forall A k (v : A) l q, has_key k l = true -> has_key q (set_key k v l) = has_key q l.
+Proof.
+  intros A k v l q Hk. unfold has_key. destruct (N.eq_dec q k) as [->|Hne].
+  - rewrite lookup_set_key_same. apply has_key_lookup in Hk. destruct Hk as (v0 & ->). reflexivity.
+  - rewrite lookup_set_key_other by auto. reflexivity.
+Qed.
+
+Lemma step_log : forall s i s', step s i = Some s' ->
+  (st_log s' = st_log s /\ forall q, has_key q (st_store s') = has_key q (st_store s)) \/
+  (exists p, st_log s' = st_log s ++ [(true, p)] /\ has_key p (st_store s) = false /\ has_key p (st_store s') = true /\
+             forall q, q <> p -> has_key q (st_store s') = has_key q (st_store s)) \/
+  (exists p, st_log s' = st_log s ++ [(false, p)] /\ has_key p (st_store s) = true /\ has_key p (st_store s') = false /\
+             forall q, q <> p -> has_key q (st_store s') = has_key q (st_store s)).
+Proof.
+  intros s i s' H.
+  step_cases H pr Hpr Hpc; subst; unfold flush_repo;
+    repeat match goal with |- context [if ?b then _ else _] => destruct b end;
+    simp_st; auto;
+    try (left; split; [reflexivity|]; intros q; apply has_key_set_key_present; apply has_key_lookup; eauto; fail).
+  - right; left. exists (o_pkg (cur pr)). split; [reflexivity|]. split; [assumption|]. split.
+    + unfold has_key. rewrite lookup_app_new by (apply has_key_false; assumption). reflexivity.
+    + intros q Hne. unfold has_key. rewrite lookup_app_other by auto. reflexivity.
+  - right; right. exists (c_id c). split; [reflexivity|]. split; [assumption|]. split.
+    + unfold has_key. rewrite lookup_remove_key_same. reflexivity.
+    + intros q Hne. unfold has_key. rewrite lookup_remove_key_other by auto. reflexivity.
+  - right; right. exists (c_id c). split; [reflexivity|]. split; [assumption|]. split.
+    + unfold has_key. rewrite lookup_remove_key_same. reflexivity.
+    + intros q Hne. unfold has_key. rewrite lookup_remove_key_other by auto. reflexivity.
+  - right; right. exists (c_id c). split; [reflexivity|]. split; [assumption|]. split.
+    + unfold has_key. rewrite lookup_remove_key_same. reflexivity.
+    + intros q Hne. unfold has_key. rewrite lookup_remove_key_other by auto. reflexivity.
+Qed.
+
+Lemma count_log_app : forall e l x,
+  count_log e (l ++ [x]) = (count_log e l + (if Bool.eqb (fst x) (fst e) && (snd x =? snd e)%N then 1 else 0))%nat.
+Proof.
+  unfold count_log; intros e l x. rewrite filter_app, app_length. cbn.
+  destruct (Bool.eqb (fst x) (fst e) && (snd x =? snd e)); reflexivity.
+Qed.
+
+Definition once_inv (s : state) : Prop :=
+  forall p, count_log (true, p) (st_log s) =
+            (count_log (false, p) (st_log s) + (if has_key p (st_store s) then 1 else 0))%nat.
+
+Lemma once_step : forall s i s', once_inv s -> step s i = Some s' -> once_inv s'.
+Proof.
+  intros s i s' I H p. specialize (I p).
+  destruct (step_log _ _ _ H) as [[El Ek]|[(p0 & El & K0 & K1 & Ko)|(p0 & El & K0 & K1 & Ko)]]; rewrite El.
+  - rewrite Ek. exact I.
+  - rewrite !count_log_app. cbn [fst snd Bool.eqb andb]. destruct (N.eq_dec p p0) as [->|Hne].
+    + rewrite N.eqb_refl, K1. rewrite K0 in I. lia.
+    + assert (E : (p0 =? p) = false) by (apply N.eqb_neq; auto). rewrite E, (Ko p Hne). cbn. lia.
+  - rewrite !count_log_app. cbn [fst snd Bool.eqb andb]. destruct (N.eq_dec p p0) as [->|Hne].
+    + rewrite N.eqb_refl, K1. rewrite K0 in I. lia.
+    + assert (E : (p0 =? p) = false) by (apply N.eqb_neq; auto). rewrite E, (Ko p Hne). cbn. lia.
+Qed.
+
+Lemma installed_at_most_once_proof : forall procs sched p,
+  let s := run (init dir procs) sched in
+  count_log (true, p) (st_log s) = (count_log (false, p) (st_log s) + (if has_key p (st_store s) then 1 else 0))%nat.
+Proof.
+  intros procs sched. cbn zeta.
+  assert (G : forall s, once_inv s -> once_inv (run s sched)).
+  { induction sched as [|a r IH]; intros s I; cbn; auto. apply IH. destruct a as [i|]; cbn [act].
+    - destruct (step s i) eqn:E; auto. eapply once_step; eauto.
+    - exact I. }
+  intros p. apply G. intros q. reflexivity.
+Qed.
+
+(* ------------------------------------------------------------------ the order of the candidates *)
+
+
+Lemma cand_leb_total : forall a b, cand_leb a b = false -> cand_leb b a = true.
+Proof.
+  intros a b H. unfold cand_leb, bool_ltb in *.
+  destruct a as [ua ta sa ia], b as [ub tb sb ib]; cbn [c_unused c_mtime c_size c_id] in *.
+  destruct ua, ub; cbn [negb andb] in *; try discriminate; try reflexivity;
+    destruct (N.ltb_spec ta tb); try discriminate; destruct (N.ltb_spec tb ta); try reflexivity; try lia;
+    destruct (N.ltb_spec sa sb); try discriminate; destruct (N.ltb_spec sb sa); try reflexivity; try lia;
+    apply N.leb_gt in H; apply N.leb_le; lia.
+Qed.
+
+Lemma cand_leb_trans : forall a b c, cand_leb a b = true -> cand_leb b c = true -> cand_leb a c = true.
+Proof.
+  intros a b c H1 H2. unfold cand_leb, bool_ltb in *.
+  destruct a as [ua ta sa ia], b as [ub tb sb ib], c as [uc tc sc ic]; cbn [c_unused c_mtime c_size c_id] in *.
+  destruct ua, ub, uc; cbn [negb andb] in *; try discriminate; try reflexivity;
+    destruct (N.ltb_spec ta tb); destruct (N.ltb_spec tb ta); try discriminate; try lia;
+    destruct (N.ltb_spec tb tc); destruct (N.ltb_spec tc tb); try discriminate; try lia;
+    destruct (N.ltb_spec ta tc); destruct (N.ltb_spec tc ta); try reflexivity; try lia;
+    destruct (N.ltb_spec sa sb); destruct (N.ltb_spec sb sa); try discriminate; try lia;
+    destruct (N.ltb_spec sb sc); destruct (N.ltb_spec sc sb); try discriminate; try lia;
+    destruct (N.ltb_spec sa sc); destruct (N.ltb_spec sc sa); try reflexivity; try lia;
+    apply N.leb_le in H1; apply N.leb_le in H2; apply N.leb_le; lia.
+Qed.
+
+(* among candidates of the same kind, earlier in the order = not younger *)
+Lemma cand_le_mtime : forall a b, cand_le a b -> c_unused a = c_unused b -> c_mtime a <= c_mtime b.
+Proof.
+  unfold cand_le, cand_leb, bool_ltb; intros a b H E. rewrite E in H.
+  destruct (c_unused b); cbn [negb andb] in H;
+    destruct (N.ltb_spec (c_mtime a) (c_mtime b)); try lia;
+    destruct (N.ltb_spec (c_mtime b) (c_mtime a)); try discriminate; lia.
+Qed.
+
+Lemma insert_cand_sorted : forall c l, StronglySorted cand_le l -> StronglySorted cand_le (insert_cand c l).
+Proof.
+  induction l as [|x r IH]; cbn; intros S.
+  - constructor; [constructor|constructor].
+  - inversion S as [|? ? Sr Fx]; subst. destruct (cand_leb c x) eqn:E.
+    + constructor; auto. constructor; [exact E|].
+      rewrite Forall_forall in *. intros y Hy. eapply cand_leb_trans; [exact E|apply Fx; auto].
+    + constructor; [apply IH; auto|]. rewrite Forall_forall in *. intros y Hy.
+      apply In_insert_cand in Hy. destruct Hy as [->|Hy]; [apply cand_leb_total; auto|apply Fx; auto].
+Qed.
+
+Lemma sort_cands_sorted : forall l, StronglySorted cand_le (sort_cands l).
+Proof. induction l; cbn; [constructor|apply insert_cand_sorted; auto]. Qed.
+
+(* ------------------------------------------------------------------ bookkeeping of a gc run (process-local) *)
+Lemma sizes_cons : forall c l, sizes (c :: l) = c_size c + sizes l.
+Proof. reflexivity. Qed.
+
+Lemma sizes_app : forall a b, sizes (a ++ b) = sizes a + sizes b.
+Proof. induction a; intros; [reflexivity|rewrite <- app_comm_cons, !sizes_cons, IHa; lia]. Qed.
+
+Lemma sizes_perm : forall a b, Permutation a b -> sizes a = sizes b.
+Proof. induction 1; rewrite ?sizes_cons; try lia; reflexivity. Qed.
+
+Lemma must_go_break : forall pr c,
+  (gc_break pr c = Some false -> must_go (p_quota pr) (g_unused pr) c (p_size pr) = true) /\
+  (gc_break pr c = Some true -> must_go (p_quota pr) (g_unused pr) c (p_size pr) = false).
+Proof.
+  unfold gc_break, must_go; intros pr c. destruct (negb (c_unused c) || negb (g_unused pr)).
+  - destruct (p_quota pr); split; intros H; inversion H as [E]; rewrite E; reflexivity.
+  - split; intros H; [reflexivity|discriminate].
+Qed.
+
+Lemma move_next_spec : forall pr pr', move_next pr = inl pr' ->
+  (pr' = set_pc pr GUnlock /\ (p_queue pr = [] \/ exists c rest, p_queue pr = c :: rest /\
+                                 must_go (p_quota pr) (g_unused pr) c (p_size pr) = false)) \/
+  (pr' = set_pc pr GMove /\ exists c rest, p_queue pr = c :: rest /\ must_go (p_quota pr) (g_unused pr) c (p_size pr) = true).
+Proof.
+  unfold move_next; intros pr pr' H. destruct (p_queue pr) as [|c rest]; [inversion H; auto|].
+  destruct (gc_break pr c) as [[|]|] eqn:E; inversion H; subst.
+  - left. split; auto. right. exists c, rest. split; auto. apply must_go_break; auto.
+  - right. split; auto. exists c, rest. split; auto. apply must_go_break; auto.
+Qed.
+
+Definition gc_local (pr : proc) : Prop :=
+  match p_pc pr with
+  | GScan | GScanUnlock => cands_ok pr /\ sizes (p_cands pr) <= p_size pr /\ p_done pr = []
+  | GScanLock => cands_ok pr /\ sizes (p_cands pr) + snd (hd (0, 0) (p_todo pr)) <= p_size pr /\ p_done pr = []
+  | GMove | GUnlock => cands_ok pr /\ move_ok pr
+  | _ => True
+  end.
+
+Lemma move_ok_sorted : forall pr x,
+  sizes (p_cands pr) <= p_size pr ->
+  (x = GUnlock /\ (sort_cands (p_cands pr) = [] \/ exists c rest, sort_cands (p_cands pr) = c :: rest /\
+        must_go (p_quota pr) (g_unused pr) c (p_size pr) = false)) \/
+  (x = GMove /\ exists c rest, sort_cands (p_cands pr) = c :: rest /\ must_go (p_quota pr) (g_unused pr) c (p_size pr) = true) ->
+  move_ok (set_pc (set_gc pr [] (p_cands pr) (sort_cands (p_cands pr)) [] (p_scan pr)) x).
+Proof.
+  intros pr x Hs Hx. unfold move_ok, g_unused; simp_st; simp_cur. cbn [app].
+  split; [apply sort_cands_perm|]. split; [apply sort_cands_sorted|].
+  split; [rewrite (sizes_perm _ _ (sort_cands_perm (p_cands pr))); exact Hs|].
+  split; [intros pre c post E; destruct pre; discriminate|].
+  destruct Hx as [[-> H]|[-> H]]; split; intros E; try discriminate; auto.
+Qed.
+
+Lemma app_snoc_split : forall A (l pre post : list A) (c x : A), l ++ [c] = pre ++ x :: post ->
+  (post = [] /\ x = c /\ pre = l) \/ (exists post0, post = post0 ++ [c] /\ l = pre ++ x :: post0).
+Proof.
+  intros A l pre post c x E. destruct (exists_last (l := x :: post)) as (post0 & y & Ey); [discriminate|].
+  rewrite Ey in E. rewrite app_assoc in E. apply app_inj_tail in E. destruct E as [E1 E2]. subst y.
+  destruct post0 as [|z post0].
+  - cbn in Ey. inversion Ey; subst. left. rewrite app_nil_r. auto.
+  - cbn in Ey. inversion Ey; subst. right. exists post0. auto.
+Qed.
+
+Lemma move_ok_next : forall pr c rest pr1 x,
+  move_ok pr -> p_pc pr = GMove -> p_queue pr = c :: rest ->
+  p_quota pr1 = p_quota pr -> g_unused pr1 = g_unused pr -> p_cands pr1 = p_cands pr ->
+  p_size pr1 = p_size pr - c_size c -> p_done pr1 = p_done pr ++ [c] -> p_queue pr1 = rest ->
+  (x = GUnlock /\ (rest = [] \/ exists c' rest', rest = c' :: rest' /\
+        must_go (p_quota pr) (g_unused pr) c' (p_size pr - c_size c) = false)) \/
+  (x = GMove /\ exists c' rest', rest = c' :: rest' /\ must_go (p_quota pr) (g_unused pr) c' (p_size pr - c_size c) = true) ->
+  p_pc pr1 = x ->
+  move_ok pr1.
+Proof.
+  intros pr c rest pr1 x (MP & MS & MZ & MD & MG & _) Hpc Hq Eq Eu Ec Es Ed Equ Hx Hpc1.
+  destruct (MG Hpc) as (c0 & rest0 & Hq0 & Hgo). rewrite Hq in Hq0. inversion Hq0; subst c0 rest0. clear Hq0.
+  rewrite Hq in *. rewrite sizes_cons in MZ.
+  unfold move_ok. rewrite Eq, Eu, Ec, Es, Ed, Equ, Hpc1.
+  split; [rewrite <- app_assoc; exact MP|]. split; [rewrite <- app_assoc; exact MS|].
+  split; [lia|]. split.
+  - intros pre y post E. apply app_snoc_split in E. destruct E as [(-> & -> & ->)|(post0 & -> & E)].
+    + assert (E0 : sizes [c] = c_size c) by (cbn; lia). rewrite E0.
+      replace (p_size pr - c_size c + c_size c) with (p_size pr) by lia. exact Hgo.
+    + specialize (MD pre y post0 E). rewrite sizes_cons in *. rewrite sizes_app.
+      assert (E0 : sizes [c] = c_size c) by (cbn; lia). rewrite E0.
+      replace (p_size pr - c_size c + (c_size y + (sizes post0 + c_size c))) with (p_size pr + (c_size y + sizes post0)) by lia.
+      exact MD.
+  - destruct Hx as [[-> H]|[-> H]]; split; intros E; try discriminate; auto.
+Qed.
+
+Lemma gc_local_trivial : forall pr, gphase (p_pc pr) = false -> p_pc pr <> GUnlock -> gc_local pr.
+Proof. unfold gc_local; intros pr H1 H2; destruct (p_pc pr); cbn in *; try discriminate; try congruence; exact I. Qed.
+
+Lemma cands_ok_same : forall pr pr', cands_ok pr -> p_cands pr' = p_cands pr -> p_ops pr' = p_ops pr -> cands_ok pr'.
+Proof.
+  unfold cands_ok, is_newpkg, g_used, cur; intros pr pr' H E1 E2 c Hc. rewrite E1 in Hc. rewrite E2. apply H; auto.
+Qed.
+
+Lemma is_newpkg_ops : forall pr pr' q, p_ops pr' = p_ops pr -> is_newpkg pr' q = is_newpkg pr q.
+Proof. unfold is_newpkg, cur; intros pr pr' q E; rewrite E; reflexivity. Qed.
+
+Lemma after_scan_spec : forall pr pr', after_scan pr = inl pr' ->
+  (p_todo pr <> [] /\ pr' = set_pc pr GScan) \/
+  (p_todo pr = [] /\
+   let pr1 := set_gc pr [] (p_cands pr) (sort_cands (p_cands pr)) [] (p_scan pr) in
+   ((pr' = set_pc pr1 GUnlock /\ (sort_cands (p_cands pr) = [] \/ exists c rest, sort_cands (p_cands pr) = c :: rest /\
+                                 must_go (p_quota pr) (g_unused pr) c (p_size pr) = false)) \/
+    (pr' = set_pc pr1 GMove /\ exists c rest, sort_cands (p_cands pr) = c :: rest /\ must_go (p_quota pr) (g_unused pr) c (p_size pr) = true))).
+Proof.
+  unfold after_scan; intros pr pr' H. destruct (p_todo pr) eqn:Et; [|left; split; [discriminate|inversion H; auto]].
+  right. split; auto. apply move_next_spec in H. exact H.
+Qed.
+
+Lemma gc_local_after_scan : forall pr pr',
+  cands_ok pr -> sizes (p_cands pr) <= p_size pr -> p_done pr = [] ->
+  after_scan pr = inl pr' -> gc_local pr'.
+Proof.
+  intros pr pr' CO SZ DN H. apply after_scan_spec in H. destruct H as [[Ht ->]|[Ht H]].
+  - unfold gc_local; simp_st. split; [eapply cands_ok_same; eauto|auto].
+  - cbn zeta in H. destruct H as [[-> H]|[-> H]]; unfold gc_local; simp_st.
+    + split; [eapply cands_ok_same; eauto|]. apply move_ok_sorted; auto.
+    + split; [eapply cands_ok_same; eauto|]. apply move_ok_sorted; auto.
+Qed.
+
+Lemma gc_local_step : forall s i s' pr pr', step s i = Some s' -> proc_at s i pr -> proc_at s' i pr' ->
+  gc_local pr -> gc_local pr'.
+Proof.
+  intros s i s' pr0 pr' H Hp0 Hp' G. unfold proc_at in *.
+  step_cases H pr Hpr Hpc; subst; inversion Hp0; subst pr0; clear Hp0;
+    unfold flush_repo in *;
+    repeat match type of Hp' with context [if ?b then _ else _] => destruct b eqn:? end;
+    cbn [st_procs upd_proc with_store with_repo with_links with_log with_dir] in Hp';
+    rewrite (nth_error_set_nth_same _ _ _ _ _ Hpr) in Hp'; inversion Hp'; subst pr'; clear Hp';
+    try (apply gc_local_trivial;
+         [rewrite ?finish_pc, ?gphase_start, ?gphase_use_return, ?gphase_gc_return; reflexivity
+         |intros Hx; pc_contra Hx]; fail);
+    unfold gc_local in G; rewrite Hpc in G.
+  - (* GLock *)
+    eapply gc_local_after_scan; [| | |eassumption]; simp_st; [intros c []|cbn; lia|reflexivity].
+  - (* GScan -> GScanLock *)
+    destruct G as (CO & SZ & DN). unfold gc_local; simp_st.
+    split; [eapply cands_ok_same; eauto|]. split; [cbn; lia|auto].
+  - (* GScan, directory gone *)
+    destruct G as (CO & SZ & DN).
+    eapply gc_local_after_scan; [| | |eassumption]; simp_st; [eapply cands_ok_same; eauto|lia|auto].
+  - (* GScanLock, candidate *)
+    destruct G as (CO & SZ & DN). rewrite Heql in SZ. cbn [hd snd] in SZ. unfold gc_local; simp_st.
+    split; [|split; [rewrite sizes_app; cbn; lia|auto]].
+    intros c0 Hc. simp_st. apply in_app_iff in Hc. destruct Hc as [Hc|[<-|[]]].
+    + pose proof (CO c0 Hc) as X. unfold is_newpkg, g_used in *. simp_cur. exact X.
+    + cbn [c_unused c_id]. unfold is_newpkg, g_used in *. simp_cur. split.
+      * intros Hu. apply andb_true_iff in Hu. destruct Hu as [_ Hu]. apply negb_true_iff in Hu. exact Hu.
+      * intros Hg. rewrite Hg, orb_false_r in Heqb0. exact Heqb0.
+  - (* GScanLock, not a candidate *)
+    destruct G as (CO & SZ & DN). unfold gc_local; simp_st.
+    split; [eapply cands_ok_same; eauto|]. split; [lia|auto].
+  - (* GScanUnlock *)
+    destruct G as (CO & SZ & DN). eapply gc_local_after_scan; eauto.
+  - (* GMove, dry run *)
+    destruct G as (CO & MO). apply move_next_spec in Heqs0. simp_st.
+    unfold g_unused in Heqs0; simp_cur; fold (g_unused pr) in Heqs0.
+    destruct Heqs0 as [[-> Hx]|[-> Hx]]; unfold gc_local; simp_st;
+      (split; [eapply cands_ok_same; eauto|]);
+      eapply (move_ok_next pr c l); try exact MO; try exact Hpc; try exact Heql; try reflexivity; auto.
+  - (* GMove, collect *)
+    destruct G as (CO & MO). apply move_next_spec in Heqs0. simp_st.
+    unfold g_unused in Heqs0; simp_cur; fold (g_unused pr) in Heqs0.
+    destruct Heqs0 as [[-> Hx]|[-> Hx]]; unfold gc_local; simp_st;
+      (split; [eapply cands_ok_same; eauto|]);
+      eapply (move_ok_next pr c l); try exact MO; try exact Hpc; try exact Heql; try reflexivity; auto.
+Qed.
+
+Lemma gc_local_all : forall procs sched i pr, wf_procs procs ->
+  nth_error (st_procs (run (init dir procs) sched)) i = Some pr -> gc_local pr.
+Proof.
+  intros procs sched i pr WF. revert i pr.
+  induction sched as [|a sched IH] using rev_ind; intros i pr Hi.
+  - cbn in Hi. destruct (WF pr) as (q & au & ops & ->); [eapply nth_error_In; exact Hi|].
+    apply gc_local_trivial; cbn [p_pc mk_proc]; [apply gphase_start|].
+    intros E. destruct (start_pc_cases ops) as [E2|[E2|[E2|[E2|E2]]]]; rewrite E2 in E; discriminate.
+  - rewrite run_snoc in Hi. destruct a as [k|]; cbn [act] in Hi; [|apply (IH i pr Hi)].
+    destruct (step (run (init dir procs) sched) k) as [s'|] eqn:Hst; [|apply (IH i pr Hi)].
+    destruct (Nat.eq_dec i k) as [->|Hne].
+    + destruct (step_proc_at_self _ _ _ Hst) as (pr0 & pr1 & Hp & Hp').
+      assert (pr1 = pr) by (unfold proc_at in *; congruence); subst pr1.
+      eapply gc_local_step; eauto.
+    + apply (step_proc_at_other _ _ _ i pr Hst) in Hi; auto. apply (IH i pr Hi).
+Qed.
+
+Lemma auto_gc_only_unused_oldest_first_until_quota_proof : forall procs sched g pr,
+  wf_procs procs -> nth_error (st_procs (run (init dir procs) sched)) g = Some pr ->
+  p_pc pr = GMove \/ p_pc pr = GUnlock -> cands_ok pr /\ move_ok pr.
+Proof.
+  intros procs sched g pr WF Hg Hpc. pose proof (gc_local_all procs sched g pr WF Hg) as G.
+  unfold gc_local in G. destruct Hpc as [E|E]; rewrite E in G; exact G.
+Qed.
+
+Lemma lock_protocol_proof : forall procs sched i j pi pj,
+  wf_procs procs -> i <> j ->
+  nth_error (st_procs (run (init dir procs) sched)) i = Some pi ->
+  nth_error (st_procs (run (init dir procs) sched)) j = Some pj ->
+  (repo_mode (p_pc pi) = Some true -> repo_mode (p_pc pj) = None) /\
+  (forall q, pkg_lock pi = Some (q, true) -> forall m, pkg_lock pj <> Some (q, m)).
+Proof.
+  intros procs sched i j pi pj WF Hne Hi Hj.
+  pose proof (base_run _ sched (base_init _ WF)) as B. split.
+  - intros Hm. apply (b_er _ B i j pi pj Hne Hi Hj Hm).
+  - intros q Hl m. apply (b_ep _ B i j pi pj q Hne Hi Hj Hl m).
+Qed.
+
+End WithDir.
